@@ -18,6 +18,9 @@ Definition overflow_reason (w : str) : Prop :=
    strict = false : every value type; the only host crash left is the stack overflow on a cyclic value. *)
 Section Sound.
 Context (strict : bool).
+(* the typing of the program's globals (the frame wt_top computes); it extends the built-in globals *)
+Context (Gg : sframe).
+Context (HGg : forall n t, sget n global_frame0 = Some t -> sget n Gg = Some t).
 
 (* ---------- outcomes that are not "going wrong" ---------- *)
 Definition safe_err (e : err) : Prop :=
@@ -125,53 +128,69 @@ Record heap_ok (S : sty) (h : heap) : Prop := {
   ho_tys : forall l t, sfind S l = Some t -> ty_ok1 t = true }.
 
 (* ---------- environments ---------- *)
-Definition frame_ok (S : sty) (outer : tyenv) (sf : sframe) (df : frame) : Prop :=
-  (forall n t, sget n sf = Some t -> exists l, frame_get n df = Some l /\ sfind S l = Some t) /\
-  (forall n l, frame_get n df = Some l -> sget n sf = None ->
-     forall t, slookup n outer = Some t -> sfind S l = Some t).
+Definition sframe_sub (a b : sframe) : Prop := forall n t, sget n a = Some t -> sget n b = Some t.
 
-Inductive env_ok (S : sty) : tyenv -> list frame -> Prop :=
-| EO_nil : env_ok S [] []
-| EO_cons sf G df e : frame_ok S G sf df -> env_ok S G e -> env_ok S (sf :: G) (df :: e).
+(* a local frame: exactly the statically declared names, at their types *)
+Definition frame_ok (S : sty) (sf : sframe) (df : frame) : Prop :=
+  (forall n t, sget n sf = Some t -> exists l, frame_get n df = Some l /\ sfind S l = Some t) /\
+  (forall n l, frame_get n df = Some l -> sget n sf <> None).
+
+(* the globals: those declared so far, at the types the program gives them; err and errmsg exist *)
+Definition globals_ok (S : sty) (g : frame) : Prop :=
+  (forall n l, frame_get n g = Some l -> exists t, sget n Gg = Some t /\ sfind S l = Some t) /\
+  frame_get n_err g <> None /\ frame_get n_errmsg g <> None.
+
+Inductive env_ok (S : sty) : tyenv -> env -> frame -> Prop :=
+| EO_glob gs g : sframe_sub gs Gg -> globals_ok S g -> env_ok S [gs] [] g
+| EO_cons sf G df e g : frame_ok S sf df -> env_ok S G e g -> env_ok S (sf :: G) (df :: e) g.
 
 Definition full (e : env) (s : state) : list frame := e ++ [st_globals s].
 
 Definition inv (S : sty) (G : tyenv) (e : env) (s : state) : Prop :=
-  heap_ok S (st_heap s) /\ env_ok S G (full e s).
+  heap_ok S (st_heap s) /\ env_ok S G e (st_globals s).
 
-Lemma frame_ok_ext S S' T sf df : ext S S' -> frame_ok S T sf df -> frame_ok S' T sf df.
+Lemma frame_ok_ext S S' sf df : ext S S' -> frame_ok S sf df -> frame_ok S' sf df.
 Proof.
-  intros E [H1 H2]; split.
-  - intros n t Hn. destruct (H1 n t Hn) as (l & Hl & Ht). eauto.
-  - intros n l Hn Hs t Ho. eauto.
+  intros E [H1 H2]; split; auto.
+  intros n t Hn. destruct (H1 n t Hn) as (l & Hl & Ht). eauto.
 Qed.
 
-Lemma env_ok_ext S S' G fe : ext S S' -> env_ok S G fe -> env_ok S' G fe.
-Proof. intros E H; induction H; constructor; eauto using frame_ok_ext. Qed.
+Lemma globals_ok_ext S S' g : ext S S' -> globals_ok S g -> globals_ok S' g.
+Proof.
+  intros E (H1 & H2 & H3); split; auto.
+  intros n l Hn. destruct (H1 n l Hn) as (t & Ht & Hl). eauto.
+Qed.
 
-Lemma env_ok_length S G fe : env_ok S G fe -> List.length G = List.length fe.
+Lemma env_ok_ext S S' G e g : ext S S' -> env_ok S G e g -> env_ok S' G e g.
+Proof. intros E H; induction H; constructor; eauto using frame_ok_ext, globals_ok_ext. Qed.
+
+Lemma env_ok_length S G e g : env_ok S G e g -> List.length G = Datatypes.S (List.length e).
 Proof. induction 1; simpl; auto. Qed.
 
-Lemma inv_ext_env S S' G e s : ext S S' -> heap_ok S' (st_heap s) -> env_ok S G (full e s) -> inv S' G e s.
-Proof. intros; split; eauto using env_ok_ext. Qed.
+Lemma env_ok_globals S G e g : env_ok S G e g -> globals_ok S g.
+Proof. induction 1; auto. Qed.
 
-(* lookup through the whole frame list finds the statically resolved variable *)
-Lemma env_get_sound S G fe n t :
-  env_ok S G fe -> slookup n G = Some t -> exists l, env_get n fe = Some l /\ sfind S l = Some t.
-Proof.
-  induction 1 as [|sf G df e [H1 H2] He IH]; simpl; [discriminate|].
-  intros Hs. destruct (sget n sf) as [t0|] eqn:Hg.
-  - inversion Hs; subst. destruct (H1 n t Hg) as (l & Hl & Ht). rewrite Hl. eauto.
-  - destruct (frame_get n df) as [l|] eqn:Hd.
-    + exists l; split; auto. eapply H2; eauto.
-    + auto.
-Qed.
+Lemma env_ok_reglob S G e g g' : env_ok S G e g -> globals_ok S g' -> env_ok S G e g'.
+Proof. intros H Hg; induction H; constructor; auto. Qed.
 
 Lemma env_get_app n e g : env_get n (e ++ [g]) = match env_get n e with Some l => Some l | None => frame_get n g end.
 Proof.
   induction e as [|f e IH]; simpl.
   - destruct (frame_get n g); reflexivity.
   - destruct (frame_get n f); auto.
+Qed.
+
+(* a variable that is found holds a cell of the type the checker resolved it to *)
+Lemma env_lookup_sound S G e g n t l :
+  env_ok S G e g -> slookup n G = Some t -> env_get n (e ++ [g]) = Some l -> sfind S l = Some t.
+Proof.
+  induction 1 as [gs g Hsub (Hg & _)|sf G df e g [H1 H2] He IH]; simpl.
+  - destruct (sget n gs) as [t0|] eqn:Hs; [|discriminate]. intros Ht; inversion Ht; subst.
+    destruct (frame_get n g) as [l0|] eqn:Hl; [|discriminate]. intros Hx; inversion Hx; subst.
+    destruct (Hg _ _ Hl) as (t' & Ht' & Hl'). rewrite (Hsub _ _ Hs) in Ht'. congruence.
+  - intros Hs. destruct (sget n sf) as [t0|] eqn:Hg.
+    + inversion Hs; subst. destruct (H1 n t Hg) as (l0 & Hl0 & Ht0). rewrite Hl0. congruence.
+    + destruct (frame_get n df) as [l0|] eqn:Hd; [exfalso; eapply H2; eauto|]. auto.
 Qed.
 
 Lemma lookup_full n e s : str_eqb n underscore = false -> lookup n e s = (Ok (env_get n (full e s)), s).
@@ -631,9 +650,9 @@ Proof.
   - simpl. destruct (str_eqb n k) eqn:E; auto. apply str_eqb_eq in E; congruence.
 Qed.
 
-Lemma frame_ok_decl S T sf df n t l :
-  frame_ok S T sf df -> sfind S l = Some t -> sget n sf = None ->
-  frame_ok S T ((n, t) :: sf) (frame_set n l df).
+Lemma frame_ok_decl S sf df n t l :
+  frame_ok S sf df -> sfind S l = Some t -> sget n sf = None ->
+  frame_ok S ((n, t) :: sf) (frame_set n l df).
 Proof.
   intros [H1 H2] Hl Hn; split.
   - intros k t0. simpl. destruct (str_eqb n k) eqn:E.
@@ -645,54 +664,49 @@ Proof.
     apply str_eqb_neq in E. rewrite frame_get_set_other by congruence. eauto.
 Qed.
 
-Lemma frame_ok_replace S T sf df n t l :
-  frame_ok S T sf df -> sfind S l = Some t -> frame_get n df <> None ->
-  slookup n (sf :: T) = Some t ->
-  frame_ok S T sf (frame_replace n l df).
+Lemma frame_ok_replace S sf df n t l :
+  frame_ok S sf df -> sfind S l = Some t -> sget n sf = Some t -> frame_ok S sf (frame_replace n l df).
 Proof.
-  intros [H1 H2] Hl Hn Hs; split.
+  intros [H1 H2] Hl Hs; split.
   - intros k t0 Hk. destruct (str_eq_dec k n) as [->|Hne].
-    + simpl in Hs. rewrite Hk in Hs. inversion Hs; subst.
-      exists l; split; auto using frame_get_replace_same.
+    + rewrite Hk in Hs. inversion Hs; subst. destruct (H1 _ _ Hk) as (l0 & Hl0 & _).
+      exists l; split; auto. apply frame_get_replace_same. congruence.
     + rewrite frame_get_replace_other by auto. auto.
-  - intros k l0 Hk Hsk t0 Ht0. destruct (str_eq_dec k n) as [->|Hne].
-    + rewrite frame_get_replace_same in Hk by auto. inversion Hk; subst.
-      simpl in Hs. rewrite Hsk in Hs. congruence.
-    + rewrite frame_get_replace_other in Hk by auto. eauto.
+  - intros k l0 Hk. destruct (str_eq_dec k n) as [->|Hne]; [congruence|].
+    rewrite frame_get_replace_other in Hk by auto. eauto.
 Qed.
 
-Lemma env_update_ok S G fe n t l fe' :
-  env_ok S G fe -> slookup n G = Some t -> sfind S l = Some t ->
-  env_update n l fe = Some fe' -> env_ok S G fe'.
+Lemma frame_get_replace_none n k l f : frame_get k f <> None -> frame_get k (frame_replace n l f) <> None.
 Proof.
-  intros H; revert fe'. induction H as [|sf G df e Hf He IH]; intros fe' Hs Hl Hu; simpl in *; [discriminate|].
-  destruct (frame_get n df) eqn:Hg.
-  - inversion Hu; subst. constructor; auto.
-    eapply frame_ok_replace; eauto. congruence.
-  - destruct (env_update n l e) as [e'|] eqn:Hu'; simpl in Hu; inversion Hu; subst.
-    constructor; auto. apply IH; auto.
-    destruct (sget n sf) eqn:Hsf; auto.
-    destruct Hf as [H1 _]. destruct (H1 _ _ Hsf) as (l0 & Hl0 & _). congruence.
+  intros H. destruct (str_eq_dec k n) as [->|Hne].
+  - rewrite frame_get_replace_same; congruence.
+  - rewrite frame_get_replace_other; auto.
 Qed.
 
-Lemma env_update_some n l fe : env_get n fe <> None -> exists fe', env_update n l fe = Some fe'.
+Lemma frame_get_set_none n k l f : frame_get k f <> None -> frame_get k (frame_set n l f) <> None.
 Proof.
-  induction fe as [|f fe IH]; simpl; [congruence|].
-  destruct (frame_get n f); eauto.
-  intros H. destruct (IH H) as (fe' & ->). simpl; eauto.
+  intros H. destruct (str_eq_dec k n) as [->|Hne].
+  - rewrite frame_get_set_same; congruence.
+  - rewrite frame_get_set_other; auto.
 Qed.
 
-Lemma env_update_app n l e g :
-  env_update n l (e ++ [g]) =
-  match env_update n l e with
-  | Some e' => Some (e' ++ [g])
-  | None => match frame_get n g with Some _ => Some (e ++ [frame_replace n l g]) | None => None end
-  end.
+Lemma globals_ok_replace S g n t l :
+  globals_ok S g -> sget n Gg = Some t -> sfind S l = Some t -> frame_get n g <> None ->
+  globals_ok S (frame_replace n l g).
 Proof.
-  induction e as [|f e IH]; simpl.
-  - destruct (frame_get n g); reflexivity.
-  - destruct (frame_get n f); auto. rewrite IH.
-    destruct (env_update n l e); simpl; auto. destruct (frame_get n g); reflexivity.
+  intros (H1 & H2 & H3) Hs Hl Hn. split; [|split; apply frame_get_replace_none; auto].
+  intros k l0 Hk. destruct (str_eq_dec k n) as [->|Hne].
+  - rewrite frame_get_replace_same in Hk by auto. inversion Hk; subst. eauto.
+  - rewrite frame_get_replace_other in Hk by auto. eauto.
+Qed.
+
+Lemma globals_ok_set S g n t l :
+  globals_ok S g -> sget n Gg = Some t -> sfind S l = Some t -> globals_ok S (frame_set n l g).
+Proof.
+  intros (H1 & H2 & H3) Hs Hl. split; [|split; apply frame_get_set_none; auto].
+  intros k l0 Hk. destruct (str_eq_dec k n) as [->|Hne].
+  - rewrite frame_get_set_same in Hk. inversion Hk; subst. eauto.
+  - rewrite frame_get_set_other in Hk by auto. eauto.
 Qed.
 
 Lemma env_update_length n l e e' : env_update n l e = Some e' -> List.length e' = List.length e.
@@ -702,34 +716,68 @@ Proof.
   destruct (env_update n l e); simpl in H; inversion H; subst. simpl; f_equal; auto.
 Qed.
 
-Lemma update_var_wp n l e s fe' :
-  str_eqb n underscore = false -> env_update n l (full e s) = Some fe' ->
-  wp (update_var n l e s) (fun e' s' => st_heap s' = st_heap s /\ List.length e' = List.length e /\ full e' s' = fe').
+(* rebinding in the local frames *)
+Lemma env_update_locals S G e g n t l e' :
+  env_ok S G e g -> slookup n G = Some t -> sfind S l = Some t ->
+  env_update n l e = Some e' -> env_ok S G e' g.
 Proof.
-  intros Hn Hu. unfold update_var, full in *. rewrite Hn. rewrite env_update_app in Hu.
-  destruct (env_update n l e) as [e'|] eqn:E.
-  - inversion Hu; subst. simpl. repeat split; eauto using env_update_length.
-  - destruct (frame_get n (st_globals s)); inversion Hu; subst. simpl. auto.
+  intros H; revert e'. induction H as [gs g Hsub Hg|sf G df e g Hf He IH]; intros e' Hs Hl Hu; simpl in *; [discriminate|].
+  destruct (frame_get n df) as [l0|] eqn:Hd.
+  - inversion Hu; subst. constructor; auto.
+    destruct Hf as [H1 H2]. destruct (sget n sf) as [t0|] eqn:Hsf; [|exfalso; eapply H2; eauto].
+    inversion Hs; subst. eapply frame_ok_replace; eauto. split; auto.
+  - destruct (env_update n l e) as [e1|] eqn:Hu'; simpl in Hu; inversion Hu; subst.
+    constructor; auto. apply IH; auto.
+    destruct (sget n sf) as [t0|] eqn:Hsf; auto.
+    destruct Hf as [H1 _]. destruct (H1 _ _ Hsf) as (l0 & Hl0 & _). congruence.
 Qed.
 
-Lemma set_var_wp n l e s :
-  str_eqb n underscore = false ->
-  wp (set_var n l e s) (fun e' s' => st_heap s' = st_heap s /\ List.length e' = List.length e /\
-        exists f rest, full e s = f :: rest /\ full e' s' = frame_set n l f :: rest).
+(* no local frame binds the name: the checker resolved it in the global frame *)
+Lemma env_update_none S G e g n t l :
+  env_ok S G e g -> slookup n G = Some t -> env_update n l e = None -> sget n Gg = Some t.
 Proof.
-  intros Hn. unfold set_var, full. rewrite Hn. destruct e as [|f e]; simpl; repeat split; eauto.
+  induction 1 as [gs g Hsub Hg|sf G df e g Hf He IH]; simpl.
+  - destruct (sget n gs) eqn:Hs; [|discriminate]. intros Ht _; inversion Ht; subst. auto.
+  - intros Hs Hu. destruct (frame_get n df) eqn:Hd; [discriminate|].
+    destruct (env_update n l e); [discriminate|].
+    destruct (sget n sf) as [t0|] eqn:Hsf; auto.
+    destruct Hf as [H1 _]. destruct (H1 _ _ Hsf) as (l0 & Hl0 & _). congruence.
 Qed.
 
-Lemma env_ok_push S G fe : env_ok S G fe -> env_ok S (push G) ([] :: fe).
+Lemma update_var_ok S G e s n t l :
+  inv S G e s -> slookup n G = Some t -> sfind S l = Some t ->
+  wp (update_var n l e s) (fun e' s' => inv S G e' s' /\ List.length e' = List.length e).
+Proof.
+  intros [Hh He] Hs Hl. unfold update_var.
+  destruct (str_eqb n underscore); [simpl; split; [split|]; auto|].
+  destruct (env_update n l e) as [e'|] eqn:Hu.
+  - simpl. split; [split; eauto using env_update_locals|eauto using env_update_length].
+  - destruct (frame_get n (st_globals s)) eqn:Hg; [|exact I].
+    simpl. split; auto. split; auto.
+    eapply env_ok_reglob; eauto. eapply globals_ok_replace; eauto using env_ok_globals, env_update_none.
+    congruence.
+Qed.
+
+(* a declaration in the current scope *)
+Lemma set_var_ok S sf G0 e s n t l :
+  inv S (sf :: G0) e s -> sfind S l = Some t -> sget n sf = None -> str_eqb n underscore = false ->
+  (G0 = [] -> sframe_sub ((n, t) :: sf) Gg) ->
+  wp (set_var n l e s) (fun e' s' => inv S (((n, t) :: sf) :: G0) e' s' /\ List.length e' = List.length e).
+Proof.
+  intros [Hh He] Hl Hn Hus Hsub. unfold set_var. rewrite Hus.
+  inversion He; subst.
+  - simpl. split; auto. split; auto. constructor; auto.
+    eapply globals_ok_set; eauto. apply (Hsub eq_refl). simpl. rewrite str_eqb_refl. reflexivity.
+  - simpl. split; auto. split; auto. constructor; auto using frame_ok_decl.
+Qed.
+
+Lemma env_ok_push S G e g : env_ok S G e g -> env_ok S (push G) ([] :: e) g.
 Proof. intros H. constructor; auto. split; simpl; intros; discriminate. Qed.
 
-Lemma env_ok_pop S sf G e s :
-  env_ok S (sf :: G) (full e s) -> G <> [] -> env_ok S G (full (tl e) s) /\ e <> [].
+Lemma env_ok_pop S sf G e g :
+  env_ok S (sf :: G) e g -> G <> [] -> env_ok S G (tl e) g /\ e <> [].
 Proof.
-  intros H HG. destruct e as [|d e].
-  - unfold full in H; simpl in H. inversion H; subst.
-    match goal with He : env_ok S G [] |- _ => inversion He; subst end. congruence.
-  - unfold full in *; simpl in *. inversion H; subst. split; auto. discriminate.
+  intros H HG. inversion H; subst; [congruence|]. simpl. split; auto. discriminate.
 Qed.
 
 (* growth of the top static frame by declarations *)
@@ -758,9 +806,12 @@ Proof. revert b; induction a; destruct b; simpl; intros H; try discriminate; aut
 Lemma ty_eqb_refl a : ty_eqb a a = true.
 Proof. induction a; simpl; auto. Qed.
 
-(* err / errmsg resolve to the built-in globals *)
-Definition genv_ok (G : tyenv) : Prop :=
-  slookup n_err G = Some TBool /\ slookup n_errmsg G = Some TStr.
+(* err / errmsg resolve to the built-in globals; the program's functions check against the globals *)
+Definition funcs_ok (P : program) : Prop :=
+  forall fd, In fd (p_funcs P) -> wt_func (p_funcs P) Gg fd = true /\ s1_func strict fd = true.
+
+Definition genv_ok (P : program) (G : tyenv) : Prop :=
+  slookup n_err G = Some TBool /\ slookup n_errmsg G = Some TStr /\ funcs_ok P.
 
 Lemma binder_not_reserved n : binder_ok n = true -> n <> n_err /\ n <> n_errmsg /\ str_eqb n underscore = false.
 Proof.
@@ -770,22 +821,22 @@ Proof.
   - intros ->. vm_compute in H2. discriminate.
 Qed.
 
-Lemma genv_ok_push G : genv_ok G -> genv_ok (push G).
+Lemma genv_ok_push P G : genv_ok P G -> genv_ok P (push G).
 Proof. intros H; exact H. Qed.
 
 Lemma sget_other n k t sf : n <> k -> sget k ((n, t) :: sf) = sget k sf.
 Proof. intros H. simpl. destruct (str_eqb n k) eqn:E; auto. apply str_eqb_eq in E; congruence. Qed.
 
-Lemma genv_ok_grows G G' : grows G G' -> genv_ok G -> genv_ok G'.
+Lemma genv_ok_grows P G G' : grows G G' -> genv_ok P G -> genv_ok P G'.
 Proof.
   intros (a & c & T & -> & -> & H) HG. induction H; auto.
-  destruct IHfgrows as [I1 I2]. apply binder_not_reserved in H1 as (N1 & N2 & _).
+  destruct IHfgrows as (I1 & I2 & I3). apply binder_not_reserved in H1 as (N1 & N2 & _).
   unfold genv_ok in *. cbn [slookup] in *. rewrite !sget_other by auto. auto.
 Qed.
 
-Lemma genv_ok_frame G v vt : binder_ok v = true -> genv_ok G -> genv_ok ([(v, vt)] :: G).
+Lemma genv_ok_frame P G v vt : binder_ok v = true -> genv_ok P G -> genv_ok P ([(v, vt)] :: G).
 Proof.
-  intros Hb [H1 H2]. apply binder_not_reserved in Hb as (N1 & N2 & _).
+  intros Hb (H1 & H2 & H3). apply binder_not_reserved in Hb as (N1 & N2 & _).
   unfold genv_ok; simpl. destruct (str_eqb v n_err) eqn:E1; [apply str_eqb_eq in E1; congruence|].
   destruct (str_eqb v n_errmsg) eqn:E2; [apply str_eqb_eq in E2; congruence|]. auto.
 Qed.
@@ -894,7 +945,7 @@ Qed.
 
 Lemma s1_expr_EArr t es : s1_expr strict (EArr t es) = fr_tyin strict t && s1_exprs strict es.
 Proof. reflexivity. Qed.
-Lemma s1_expr_ECall name t args : s1_expr strict (ECall name t args) = mem_str name s1_builtins && s1_exprs strict args.
+Lemma s1_expr_ECall name t args : s1_expr strict (ECall name t args) = call_frag name && s1_exprs strict args.
 Proof. reflexivity. Qed.
 Lemma s1_expr_ESlice t l lo hi : s1_expr strict (ESlice t l lo hi) = fr_tyin strict t && s1_expr strict l && s1_opt strict lo && s1_opt strict hi.
 Proof. reflexivity. Qed.
@@ -1031,21 +1082,37 @@ Qed.
 Lemma ne_err_us : str_eqb n_err underscore = false. Proof. reflexivity. Qed.
 Lemma ne_errmsg_us : str_eqb n_errmsg underscore = false. Proof. reflexivity. Qed.
 
-Lemma global_err_wp S G e s b msg :
-  genv_ok G -> inv S G e s -> wp (global_err e b msg s) (fun _ s' => inv S G e s').
+Lemma lookup_reserved S G e s n t :
+  inv S G e s -> slookup n G = Some t -> (n = n_err \/ n = n_errmsg) ->
+  exists l, lookup n e s = (Ok (Some l), s) /\ sfind S l = Some t.
 Proof.
-  intros [G1 G2] [Hh He]. unfold global_err.
-  apply wp_bind. rewrite (lookup_full _ _ _ ne_err_us). simpl.
-  destruct (env_get_sound _ _ _ _ _ He G1) as (l & Hl & Ht). rewrite Hl.
+  intros [Hh He] Hs Hn.
+  assert (Hus : str_eqb n underscore = false) by (destruct Hn as [->| ->]; reflexivity).
+  rewrite (lookup_full _ _ _ Hus). unfold full.
+  destruct (env_get n (e ++ [st_globals s])) as [l|] eqn:El.
+  - exists l; split; auto. eapply env_lookup_sound; eauto.
+  - exfalso. rewrite env_get_app in El. destruct (env_get n e); [discriminate|].
+    destruct (env_ok_globals _ _ _ _ He) as (_ & G1 & G2). destruct Hn as [->| ->]; congruence.
+Qed.
+
+Lemma inv_store S G e s s' : inv S G e s -> heap_ok S (st_heap s') -> st_globals s' = st_globals s -> inv S G e s'.
+Proof. intros [_ He] Hh Hg. split; auto. rewrite Hg; auto. Qed.
+
+Lemma global_err_wp P S G e s b msg :
+  genv_ok P G -> inv S G e s -> wp (global_err e b msg s) (fun _ s' => inv S G e s').
+Proof.
+  intros (G1 & G2 & _) Hi. pose proof Hi as [Hh He]. unfold global_err.
+  destruct (lookup_reserved _ _ _ _ _ _ Hi G1 (or_introl eq_refl)) as (l & Hl & Ht).
+  apply wp_bind. rewrite Hl. simpl.
   wbind ltac:(eapply load_wp; eauto). intros v s' [-> Hc]. inversion Hc; subst.
   wbind ltac:(eapply store_wp with (t := TBool); eauto; constructor). intros _ s1 [Hh1 Hg1].
-  assert (He1 : env_ok S G (full e s1)) by (unfold full in *; rewrite Hg1; auto).
-  apply wp_bind. rewrite (lookup_full _ _ _ ne_errmsg_us). simpl.
-  destruct (env_get_sound _ _ _ _ _ He1 G2) as (l2 & Hl2 & Ht2). rewrite Hl2.
+  assert (Hi1 : inv S G e s1) by (eapply inv_store; eauto).
+  destruct (lookup_reserved _ _ _ _ _ _ Hi1 G2 (or_intror eq_refl)) as (l2 & Hl2 & Ht2).
+  apply wp_bind. rewrite Hl2. simpl.
   wbind ltac:(eapply load_wp; eauto). intros v s' [-> Hc2]. inversion Hc2; subst.
   destruct (pieces_str msg); [|exact I].
   eapply wp_mono; [eapply store_wp with (t := TStr); eauto; constructor|]. cbv beta.
-  intros _ s2 [Hh2 Hg2]. split; auto. unfold full in *; rewrite Hg2; auto.
+  intros _ s2 [Hh2 Hg2]. eapply inv_store; eauto.
 Qed.
 
 Lemma arg_ok_basic p a : p <> TGenArr -> p <> TGenMap -> arg_ok p a = true -> a = p.
@@ -1123,10 +1190,10 @@ Proof.
   eapply wp_mono; [eapply load_wp; eauto|]. cbv beta. intros v2 s2 [-> _]. reflexivity.
 Qed.
 
-Lemma builtin_sound S G e s name vals m sg ts :
+Lemma builtin_sound P S G e s name vals m sg ts :
   builtin name e vals = Some m -> mem_str name s1_builtins = true -> builtin_sig name = Some sg ->
   sig_args_ok sg ts = true -> Forall2 (fun l t => sfind S l = Some t) vals ts ->
-  genv_ok G -> inv S G e s ->
+  genv_ok P G -> inv S G e s ->
   wp (m s) (bpost S G e (fs_ret sg)).
 Proof.
   intros Hb Hs1 Hsig Hok HF HG Hi. pose proof Hi as [Hh He].
@@ -1259,48 +1326,80 @@ Definition exprs_post (S : sty) (G : tyenv) (e : env) (ts : list ty) : list loc 
   fun ls s' => exists S', ext S S' /\ inv S' G e s' /\ Forall2 (fun l t => sfind S' l = Some t) ls ts.
 
 Definition expr_sound (n : nat) : Prop := forall P e x G t S s,
-  ety (p_funcs P) G x = Some t -> s1_expr strict x = true -> genv_ok G -> inv S G e s ->
+  ety (p_funcs P) G x = Some t -> s1_expr strict x = true -> genv_ok P G -> inv S G e s ->
   wp (eval_expr n P e x s) (epost S G e t).
 
 Definition exprs_sound (n : nat) : Prop := forall P e es G ts S s,
   etys (p_funcs P) G es = Some ts -> s1_exprs strict es = true -> Forall (fun t => t <> TNone) ts ->
-  genv_ok G -> inv S G e s ->
+  genv_ok P G -> inv S G e s ->
   wp (eval_exprs n P e es s) (exprs_post S G e ts).
+
+(* the result of a call: a cell of the declared result type, or nothing for a procedure *)
+Definition cpost (S : sty) (G : tyenv) (e : env) (t : ty) : option loc -> state -> Prop :=
+  fun r s' => exists S', ext S S' /\ inv S' G e s' /\
+     match r with Some l => sfind S' l = Some t | None => t = TNone end.
 
 Definition call_sound (n : nat) : Prop := forall P e name args G sg ts S s,
   lookup_sig (p_funcs P) name = Some sg -> etys (p_funcs P) G args = Some ts ->
-  sig_args_ok sg ts = true -> mem_str name s1_builtins = true -> s1_exprs strict args = true ->
-  genv_ok G -> inv S G e s ->
-  wp (eval_call n P e name args s) (bpost S G e (fs_ret sg)).
+  sig_args_ok sg ts = true -> call_frag name = true -> s1_exprs strict args = true ->
+  genv_ok P G -> inv S G e s ->
+  wp (eval_call n P e name args s) (cpost S G e (fs_ret sg)).
 
-Definition spost (S : sty) (G G' : tyenv) (e : env) : signal * env -> state -> Prop :=
+(* control signals: break only inside a loop; a returned value has the declared result type *)
+Definition sig_ok (S : sty) (ret : option ty) (il : bool) (sig : signal) : Prop :=
+  match sig with
+  | SigNone => True
+  | SigBreak => il = true
+  | SigReturn None => ret = Some TNone
+  | SigReturn (Some l) => exists t, ret = Some t /\ sfind S l = Some t
+  end.
+
+(* statements that always terminate the function do end with a control signal *)
+Definition must_ret (rt : bool) (sig : signal) : Prop :=
+  rt = true -> sig = SigBreak \/ exists v, sig = SigReturn v.
+
+(* the top-level frame stays inside the program's global typing *)
+Definition gsub (G : tyenv) : Prop := match G with [gs] => sframe_sub gs Gg | _ => True end.
+
+Definition spost (S : sty) (G G' : tyenv) (e : env) (ret : option ty) (il rt : bool)
+  : signal * env -> state -> Prop :=
   fun r s' => exists S' G'', ext S S' /\ heap_ok S' (st_heap s') /\ grows G G'' /\
-     env_ok S' G'' (full (snd r) s') /\ List.length (snd r) = List.length e /\ (fst r = SigNone -> G'' = G').
+     env_ok S' G'' (snd r) (st_globals s') /\ List.length (snd r) = List.length e /\
+     (fst r = SigNone -> G'' = G') /\ sig_ok S' ret il (fst r) /\ must_ret rt (fst r).
 
 Definition stmt_sound (n : nat) : Prop := forall P ret il e st G G' S s,
-  wt_stmt (p_funcs P) ret il G st = Some G' -> s1_stmt strict st = true -> genv_ok G -> inv S G e s ->
-  wp (exec_stmt n P e st s) (spost S G G' e).
+  wt_stmt (p_funcs P) ret il G st = Some G' -> s1_stmt strict st = true -> genv_ok P G -> inv S G e s ->
+  gsub G' ->
+  wp (exec_stmt n P e st s) (spost S G G' e ret il (stmt_returns st)).
 
 Definition stmts_sound (n : nat) : Prop := forall P ret il e l G G' S s,
-  wt_stmts (p_funcs P) ret il G l = Some G' -> s1_stmts strict l = true -> genv_ok G -> inv S G e s ->
-  wp (exec_stmts n P e l s) (spost S G G' e).
+  wt_stmts (p_funcs P) ret il G l = Some G' -> s1_stmts strict l = true -> genv_ok P G -> inv S G e s ->
+  gsub G' ->
+  wp (exec_stmts n P e l s) (spost S G G' e ret il (always_returns l)).
 
 Definition block_sound (n : nat) : Prop := forall P ret il e l G G' S s,
-  wt_stmts (p_funcs P) ret il G l = Some G' -> s1_stmts strict l = true -> genv_ok G -> inv S G e s ->
-  wp (exec_block n P e l s) (spost S G G' e).
+  wt_stmts (p_funcs P) ret il G l = Some G' -> s1_stmts strict l = true -> genv_ok P G -> inv S G e s ->
+  gsub G' ->
+  wp (exec_block n P e l s) (spost S G G' e ret il (always_returns l)).
 
-Definition kpost {A} (S : sty) (G : tyenv) (e : env) : A * env -> state -> Prop :=
-  fun r s' => exists S', ext S S' /\ inv S' G (snd r) s' /\ List.length (snd r) = List.length e.
+Definition kpost (S : sty) (G : tyenv) (e : env) (ret : option ty) (il : bool) : signal * env -> state -> Prop :=
+  fun r s' => exists S', ext S S' /\ inv S' G (snd r) s' /\ List.length (snd r) = List.length e /\
+                         sig_ok S' ret il (fst r).
+
+Definition kposto (S : sty) (G : tyenv) (e : env) (ret : option ty) (il rt : bool)
+  : option signal * env -> state -> Prop :=
+  fun r s' => exists S', ext S S' /\ inv S' G (snd r) s' /\ List.length (snd r) = List.length e /\
+     match fst r with Some sig => sig_ok S' ret il sig /\ must_ret rt sig | None => True end.
 
 Definition cond_sound (n : nat) : Prop := forall P ret il e c body G Gb S s,
   ety (p_funcs P) (push G) c = Some TBool -> wt_stmts (p_funcs P) ret il (push G) body = Some Gb ->
-  s1_expr strict c = true -> s1_stmts strict body = true -> genv_ok G -> inv S G e s ->
-  wp (exec_cond n P e c body s) (kpost S G e).
+  s1_expr strict c = true -> s1_stmts strict body = true -> genv_ok P G -> inv S G e s ->
+  wp (exec_cond n P e c body s) (kposto S G e ret il (always_returns body)).
 
 Definition while_sound (n : nat) : Prop := forall P ret e c body G Gb S s,
   ety (p_funcs P) (push G) c = Some TBool -> wt_stmts (p_funcs P) ret true (push G) body = Some Gb ->
-  s1_expr strict c = true -> s1_stmts strict body = true -> genv_ok G -> inv S G e s ->
-  wp (exec_while n P e c body s) (kpost S G e).
+  s1_expr strict c = true -> s1_stmts strict body = true -> genv_ok P G -> inv S G e s ->
+  wp (exec_while n P e c body s) (kpost S G e ret false).
 
 (* the loop variable (None: `for range ...`) and what the ranger yields *)
 Definition rg_ok (S : sty) (named : option ty) (rg : ranger) : Prop :=
@@ -1321,9 +1420,9 @@ Definition for_frame (named : option ty) (var : str) (fr0 : sframe) : Prop :=
 
 Definition for_sound (n : nat) : Prop := forall P ret e var rg body G fr0 named Gb S s,
   wt_stmts (p_funcs P) ret true (push (fr0 :: G)) body = Some Gb -> s1_stmts strict body = true ->
-  genv_ok (fr0 :: G) -> inv S (fr0 :: G) e s ->
+  genv_ok P (fr0 :: G) -> inv S (fr0 :: G) e s ->
   for_frame named var fr0 -> rg_ok S named rg ->
-  wp (exec_for n P e var rg body s) (kpost S (fr0 :: G) e).
+  wp (exec_for n P e var rg body s) (kpost S (fr0 :: G) e ret false).
 
 Definition all_sound (n : nat) : Prop :=
   expr_sound n /\ exprs_sound n /\ call_sound n /\ stmt_sound n /\ stmts_sound n /\ block_sound n /\
@@ -1519,7 +1618,7 @@ Section ExprStep.
   Context (f : nat) (IHe : expr_sound f) (IHes : exprs_sound f) (IHc : call_sound f).
 
   Lemma eval_opt_wp P e o G S s :
-    etyo (p_funcs P) G o = true -> s1_opt strict o = true -> genv_ok G -> inv S G e s ->
+    etyo (p_funcs P) G o = true -> s1_opt strict o = true -> genv_ok P G -> inv S G e s ->
     wp ((match o with
          | Some y => let* l := eval_expr f P e y in ret (Some l)
          | None => ret None
@@ -1534,7 +1633,7 @@ Section ExprStep.
   Qed.
 
   Lemma emap_go_wp P e G u :
-    genv_ok G -> u <> TNone ->
+    genv_ok P G -> u <> TNone ->
     forall ps ts s S,
       etyps (p_funcs P) G ps = Some ts -> forallb (ty_eqb u) ts = true -> s1_pairs strict ps = true -> inv S G e s ->
       wp ((fix go (ps : list (str * expr)) : M (list (str * loc)) :=
@@ -1577,8 +1676,8 @@ Section ExprStep.
       inversion Hty; subst. apply andb_true_iff in E as [E E3]. apply andb_true_iff in E as [E1 E2].
       apply negb_true_iff in E1. apply opt_ty_eqb_eq in E2.
       apply wp_bind. rewrite (lookup_full _ _ _ E1). simpl.
-      destruct (env_get_sound _ _ _ _ _ He E2) as (l & Hl & Ht). rewrite Hl.
-      apply wp_ret. apply epost_ret; auto.
+      destruct (env_get name (full e s)) as [l|] eqn:El; [|exact I].
+      apply wp_ret. apply epost_ret; auto. eapply env_lookup_sound; eauto.
     - (* EAny *)
       cbn [ety] in Hty. cbn [s1_expr] in Hs1. apply andb_true_iff in Hs1 as [Hs1a Hs1b].
       destruct (opt_ty_eqb (ety (p_funcs P) G x) t0 && negb (is_any t0) && ty_ann t0) eqn:E; [|discriminate].
@@ -1638,8 +1737,10 @@ Section ExprStep.
       destruct (etys (p_funcs P) G args) as [ts|] eqn:Ets; [|discriminate].
       destruct (sig_args_ok sg ts && ty_eqb (fs_ret sg) t0) eqn:Ea; inversion Hty; subst.
       apply andb_true_iff in Ea as [Ea1 Ea2]. apply ty_eqb_eq in Ea2.
-      wbind ltac:(eapply IHc; eauto). intros r s1 (S1 & l & -> & E1 & Hi1 & Hl1).
-      apply wp_ret. exists S1; repeat split; auto; try apply Hi1. congruence.
+      wbind ltac:(eapply IHc; eauto). intros r s1 (S1 & E1 & Hi1 & Hr).
+      destruct r as [l|].
+      + apply wp_ret. exists S1; split; [auto|split; [exact Hi1|congruence]].
+      + rewrite <- Ea2, Hr. eapply alloc_epost; eauto. constructor.
     - (* EUn *)
       cbn [ety] in Hty. cbn [s1_expr] in Hs1.
       destruct (ety (p_funcs P) G x) as [tx|] eqn:Ex; [|destruct op; discriminate].
@@ -1792,16 +1893,6 @@ Section ExprsStep.
       constructor; auto.
   Qed.
 
-  Lemma call_step : call_sound (S f).
-  Proof.
-    intros P e name args G sg ts S s Hsig Hty Hok Hm Hs1 HG Hi. cbn [eval_call].
-    destruct (s1_name_facts name (p_funcs P) Hm) as (Ht & Hl & Hn).
-    wbind ltac:(eapply IHes; eauto using sig_args_ok_value). intros vals s1 (S1 & E1 & Hi1 & HF).
-    rewrite Ht. destruct (builtin name e vals) as [m|] eqn:Eb.
-    - eapply wp_mono; [eapply builtin_sound; eauto; rewrite <- Hl; eauto|]. cbv beta.
-      intros r s2 (S2 & l & -> & E2 & Hi2 & Hl2). exists S2, l; repeat split; eauto using ext_trans; apply Hi2.
-    - apply builtin_none in Eb. congruence.
-  Qed.
 End ExprsStep.
 
 (* ---------- statements: checker equations ---------- *)
@@ -1817,6 +1908,13 @@ End CondsWt.
 
 Fixpoint conds_s1 (cs : list (expr * list stmt)) : bool :=
   match cs with [] => true | (c, b) :: r => s1_expr strict c && s1_stmts strict b && conds_s1 r end.
+
+Fixpoint conds_ret (cs : list (expr * list stmt)) : bool :=
+  match cs with [] => true | (_, b) :: t => always_returns b && conds_ret t end.
+
+Lemma stmt_returns_SIf conds els : stmt_returns (SIf conds els) =
+  match els with Some b => conds_ret conds && always_returns b | None => false end.
+Proof. destruct els; reflexivity. Qed.
 
 Lemma wt_stmt_SIf F ret il G conds els : wt_stmt F ret il G (SIf conds els) =
   if conds_wt F ret il G conds &&
@@ -1863,7 +1961,7 @@ Lemma s1_stmt_SFor var vt r body : s1_stmt strict (SFor var vt r body) =
          end
       && s1_stmts strict body.
 Proof. reflexivity. Qed.
-Lemma s1_stmt_SCallStmt name args : s1_stmt strict (SCallStmt name args) = mem_str name s1_builtins && s1_exprs strict args.
+Lemma s1_stmt_SCallStmt name args : s1_stmt strict (SCallStmt name args) = call_frag name && s1_exprs strict args.
 Proof. reflexivity. Qed.
 
 (* ---------- statements: invariant bookkeeping ---------- *)
@@ -1871,31 +1969,105 @@ Lemma grows_inv sf0 T G' : grows (sf0 :: T) G' -> exists sf, G' = sf :: T /\ fgr
 Proof. intros (a & c & T' & E & -> & H). inversion E; subst. eauto. Qed.
 
 Lemma inv_nonempty S G e s : inv S G e s -> G <> [].
+Proof. intros [_ He] ->. apply env_ok_length in He. simpl in He. lia. Qed.
+
+Lemma sig_ok_ext S S' ret il sig : ext S S' -> sig_ok S ret il sig -> sig_ok S' ret il sig.
+Proof. intros E. destruct sig as [| |[l|]]; simpl; auto. intros (t & H1 & H2); eauto. Qed.
+
+Lemma sig_ok_noloop S ret il sig : sig_ok S ret false sig -> sig_ok S ret il sig.
+Proof. destruct sig as [| |[l|]]; simpl; auto. discriminate. Qed.
+
+Lemma must_ret_false sig : must_ret false sig.
+Proof. intros H; discriminate. Qed.
+
+Lemma spost_of_kpost S G e ret il sig e' s' :
+  G <> [] -> kpost S G e ret false (sig, e') s' -> spost S G G e ret il false (sig, e') s'.
 Proof.
-  intros [_ He] ->. apply env_ok_length in He. unfold full in He. rewrite app_length in He. simpl in He. lia.
+  intros HG (S' & E & [Hh He] & Hl & Hs). exists S', G. simpl in *.
+  split; [auto|]. split; [auto|]. split; [auto using grows_refl|]. split; [auto|]. split; [auto|].
+  split; [auto|]. split; [auto using sig_ok_noloop|apply must_ret_false].
 Qed.
 
-Lemma spost_of_kpost {A} S G e (a : A) sig e' s' :
-  G <> [] -> kpost S G e (a, e') s' -> spost S G G e (sig, e') s'.
+(* leaving a block: the frame pushed for it is dropped *)
+Lemma pop_post S G Gb e ret il rt r s' :
+  G <> [] -> spost S (push G) Gb ([] :: e) ret il rt r s' ->
+  exists S', ext S S' /\ inv S' G (tl (snd r)) s' /\ List.length (tl (snd r)) = List.length e /\
+             sig_ok S' ret il (fst r) /\ must_ret rt (fst r).
 Proof.
-  intros HG (S' & E & [Hh He] & Hl). exists S', G. simpl in *. repeat split; auto using grows_refl; apply Hh.
-Qed.
-
-Lemma pop_post {A} S G Gb e r s' (a : A) :
-  G <> [] -> spost S (push G) Gb ([] :: e) r s' -> kpost S G e (a, tl (snd r)) s'.
-Proof.
-  intros HG (S' & G'' & E & Hh & Hg & He & Hl & _).
+  intros HG (S' & G'' & E & Hh & Hg & He & Hl & _ & Hs & Hm).
   apply grows_inv in Hg as (sf & -> & _).
   apply env_ok_pop in He as [He Hne]; auto.
-  exists S'; split; auto. split; [split; auto|].
-  simpl. destruct (snd r); [congruence|]. simpl in *. lia.
+  exists S'; split; auto. split; [split; auto|]. split; [|split; auto].
+  destruct (snd r); [congruence|]. simpl in *. injection Hl; auto.
 Qed.
 
 Lemma inv_push S G e s : inv S G e s -> inv S (push G) ([] :: e) s.
-Proof. intros [Hh He]. split; auto. unfold full; simpl. apply env_ok_push; auto. Qed.
+Proof. intros [Hh He]. split; auto. apply env_ok_push; auto. Qed.
 
 Lemma inv_unpush S sf G d e s : inv S (sf :: G) (d :: e) s -> inv S G e s.
-Proof. intros [Hh He]. split; auto. unfold full in *; simpl in He. inversion He; subst; auto. Qed.
+Proof. intros [Hh He]. split; auto. inversion He; subst; auto. Qed.
+
+Lemma fgrows_sub a b : fgrows a b -> sframe_sub a b.
+Proof.
+  induction 1 as [|sf n t Hg IH Hn Hb]; intros k u Hk; auto.
+  simpl. destruct (str_eqb n k) eqn:E; [|auto].
+  apply str_eqb_eq in E; subst. rewrite (IH _ _ Hk) in Hn. discriminate.
+Qed.
+
+Lemma gsub_grows G G' : grows G G' -> gsub G' -> gsub G.
+Proof.
+  intros (a & c & T & -> & -> & H). destruct T; simpl; auto.
+  intros Hs k u Hk. apply Hs. eapply fgrows_sub; eauto.
+Qed.
+
+Lemma gsub_push_result G Gb : grows (push G) Gb -> G <> [] -> gsub Gb.
+Proof. intros Hg HG. apply grows_inv in Hg as (sf & -> & _). destruct G; [congruence|exact I]. Qed.
+
+Lemma wt_stmt_grows F ret il G st G' : wt_stmt F ret il G st = Some G' -> G <> [] -> grows G G'.
+Proof.
+  intros H HG.
+  assert (SAME : G' = G -> grows G G') by (intros ->; apply grows_refl; auto).
+  destruct st.
+  - cbn [wt_stmt] in H. destruct G as [|fr G0]; [discriminate|].
+    match type of H with (if ?c then _ else _) = _ => destruct c eqn:Ec; inversion H; subst end.
+    apply andb_true_iff in Ec as [Ec _]. apply andb_true_iff in Ec as [Ec _]. apply andb_true_iff in Ec as [Ec1 Ec2].
+    exists fr, ((name, t) :: fr), G0. repeat split; auto. constructor; [constructor| |auto].
+    apply negb_true_iff in Ec2. destruct (sget name fr); [discriminate|auto].
+  - cbn [wt_stmt] in H. apply SAME.
+    repeat match type of H with
+           | match ?x with _ => _ end = _ => destruct x; try discriminate
+           | (if ?c then _ else _) = _ => destruct c; try discriminate
+           end. inversion H; auto.
+  - cbn [wt_stmt] in H. apply SAME. destruct (is_some _); inversion H; auto.
+  - cbn [wt_stmt] in H. apply SAME.
+    repeat match type of H with
+           | match ?x with _ => _ end = _ => destruct x; try discriminate
+           | (if ?c then _ else _) = _ => destruct c; try discriminate
+           end; inversion H; auto.
+  - cbn [wt_stmt] in H. apply SAME. destruct il; inversion H; auto.
+  - rewrite wt_stmt_SIf in H. apply SAME.
+    match type of H with (if ?c then _ else _) = _ => destruct c; inversion H; auto end.
+  - rewrite wt_stmt_SWhile in H. apply SAME.
+    match type of H with (if ?c then _ else _) = _ => destruct c; inversion H; auto end.
+  - rewrite wt_stmt_SFor in H. cbv zeta in H. apply SAME.
+    repeat match type of H with
+           | match ?x with _ => _ end = _ => destruct x; try discriminate
+           | (if ?c then _ else _) = _ => destruct c; try discriminate
+           end; inversion H; auto.
+  - inversion H; subst. apply SAME; auto.
+Qed.
+
+Lemma grows_nonempty G G' : grows G G' -> G' <> [].
+Proof. intros (a & c & T & -> & -> & _). discriminate. Qed.
+
+Lemma wt_stmts_grows F ret il : forall l G G', wt_stmts F ret il G l = Some G' -> G <> [] -> grows G G'.
+Proof.
+  induction l as [|st l IH]; intros G G' H HG; simpl in H.
+  - inversion H; subst. apply grows_refl; auto.
+  - destruct (wt_stmt F ret il G st) as [G1|] eqn:E1; [|discriminate].
+    pose proof (wt_stmt_grows _ _ _ _ _ _ E1 HG) as Hg1.
+    eapply grows_trans; eauto. eapply IH; eauto using grows_nonempty.
+Qed.
 
 Lemma list_set_Forall {A} (P : A -> Prop) l k x : Forall P l -> P x -> Forall P (list_set l k x).
 Proof.
@@ -1913,6 +2085,219 @@ Proof.
   - intros [[(u & H1)|H] H2]; (split; [|exact H2]); [left; eauto|right; auto].
 Qed.
 
+(* ---------- calls of user functions ---------- *)
+Lemma call_frag_not_test name : call_frag name = true -> str_eqb name n_test = false.
+Proof.
+  unfold call_frag. intros H. apply orb_true_iff in H as [H|H].
+  - apply (s1_name_facts name [] H).
+  - destruct (str_eqb name n_test) eqn:E; auto. apply str_eqb_eq in E; subst. vm_compute in H. discriminate.
+Qed.
+
+Lemma builtin_some_sig name e vals m : builtin name e vals = Some m -> builtin_sig name <> None.
+Proof.
+  unfold builtin. intros Hb.
+  repeat match type of Hb with
+  | (if name_is ?n ?lit then Some _ else _) = Some _ =>
+      let E := fresh "E" in
+      destruct (name_is n lit) eqn:E;
+      [unfold name_is in E; apply str_eqb_eq in E; subst n; vm_compute; discriminate|clear E]
+  end.
+  destruct (existsb (str_eqb name) gfx_num_names) eqn:X1.
+  { apply existsb_exists in X1 as (x & Hin & Hx). apply str_eqb_eq in Hx; subst x.
+    simpl in Hin. repeat destruct Hin as [<-|Hin]; try contradiction; vm_compute; discriminate. }
+  destruct (existsb (str_eqb name) gfx_xy_names) eqn:X2.
+  { apply existsb_exists in X2 as (x & Hin & Hx). apply str_eqb_eq in Hx; subst x.
+    simpl in Hin. repeat destruct Hin as [<-|Hin]; try contradiction; vm_compute; discriminate. }
+  destruct (existsb (str_eqb name) gfx_str_names) eqn:X3; [|discriminate].
+  apply existsb_exists in X3 as (x & Hin & Hx). apply str_eqb_eq in Hx; subst x.
+  simpl in Hin. repeat destruct Hin as [<-|Hin]; try contradiction; vm_compute; discriminate.
+Qed.
+
+Lemma find_func_In n F fd : find_func n F = Some fd -> In fd F.
+Proof.
+  induction F as [|f F IH]; simpl; [discriminate|].
+  destruct (str_eqb (fn_name f) n); [intros H; inversion H; auto|auto].
+Qed.
+
+Lemma ty_proper_not_gen p : ty_proper p = true -> p <> TGenArr /\ p <> TGenMap.
+Proof. intros H; split; intros ->; discriminate. Qed.
+
+Lemma args_ok_eq ps ts :
+  Forall (fun p => ty_proper p = true) ps -> args_ok ps None ts = true -> ts = ps.
+Proof.
+  intros H; revert ts; induction H as [|p ps Hp _ IH]; intros [|a ts]; simpl; try discriminate; auto.
+  intros Ha. apply andb_true_iff in Ha as [H1 H2]. destruct (ty_proper_not_gen _ Hp).
+  apply arg_ok_basic in H1; auto. subst. f_equal; auto.
+Qed.
+
+Definition nz (p : str * ty) : bool := negb (str_eqb (fst p) underscore).
+
+Lemma params_frame_eq ps : params_frame ps = rev (filter nz ps).
+Proof. reflexivity. Qed.
+
+Lemma bind_params_ok S : forall ps args sf fr s,
+  Forall2 (fun l t => sfind S l = Some t) args (map snd ps) ->
+  frame_ok S sf fr ->
+  Forall (fun p => nz p = true -> sget (fst p) sf = None) ps ->
+  names_distinct (map fst ps) = true ->
+  wp (bind_params ps args fr s)
+     (fun r s' => s' = s /\ frame_ok S (rev (filter nz ps) ++ sf) (fst r)).
+Proof.
+  induction ps as [|[n t] ps IH]; intros args sf fr s HF Hfr Hfresh Hd.
+  - simpl. split; auto.
+  - simpl in HF. inversion HF as [|a t' rest ts' Ha HF']; subst. cbn [bind_params].
+    simpl in Hd. apply andb_true_iff in Hd as [Hd1 Hd2]. inversion Hfresh as [|? ? Hf1 Hf2]; subst.
+    simpl. unfold nz at 1. simpl.
+    destruct (str_eqb n underscore) eqn:En; simpl.
+    + eapply IH; eauto.
+    + eapply wp_mono; [eapply (IH rest ((n, t) :: sf) (frame_set n a fr) s); eauto|].
+      * apply frame_ok_decl; auto. apply Hf1. unfold nz; simpl. rewrite En. reflexivity.
+      * rewrite Forall_forall in Hf2 |- *. intros [k tk] Hin Hk. simpl.
+        destruct (str_eqb n k) eqn:Enk.
+        -- apply str_eqb_eq in Enk; subst k. exfalso.
+           apply negb_true_iff in Hd1. assert (In n (map fst ps)) by (apply in_map_iff; exists (n, tk); auto).
+           apply mem_str_In in H. congruence.
+        -- apply (Hf2 _ Hin Hk).
+      * cbv beta. intros r s' [-> Hr]. split; auto. rewrite <- app_assoc. exact Hr.
+Qed.
+
+Lemma sget_In n sf t : sget n sf = Some t -> In (n, t) sf.
+Proof.
+  induction sf as [|[k u] sf IH]; simpl; [discriminate|].
+  destruct (str_eqb k n) eqn:E; auto. apply str_eqb_eq in E; subst. intros H; inversion H; auto.
+Qed.
+
+Lemma params_frame_not_reserved ps n :
+  forallb param_ok ps = true -> (n = n_err \/ n = n_errmsg) -> sget n (params_frame ps) = None.
+Proof.
+  intros Hp Hn. destruct (sget n (params_frame ps)) as [t|] eqn:E; auto. exfalso.
+  apply sget_In in E. unfold params_frame in E. apply in_rev in E. apply filter_In in E as [Hin Hnz].
+  rewrite forallb_forall in Hp. specialize (Hp _ Hin). unfold param_ok in Hp. simpl in Hp, Hnz.
+  apply andb_true_iff in Hp as [Hp _]. apply negb_true_iff in Hnz. rewrite Hnz in Hp. simpl in Hp.
+  apply binder_not_reserved in Hp as (N1 & N2 & _). destruct Hn; congruence.
+Qed.
+
+Section CallStep.
+  Context (f : nat) (IHes : exprs_sound f) (IHblock : block_sound f).
+
+  Lemma call_step : call_sound (S f).
+  Proof.
+    intros P e name args G sg ts S s Hsig Hty Hok Hm Hs1 HG Hi. cbn [eval_call].
+    pose proof (call_frag_not_test _ Hm) as Htest.
+    wbind ltac:(eapply IHes; eauto using sig_args_ok_value). intros vals s1 (S1 & E1 & Hi1 & HF).
+    rewrite Htest. destruct (builtin name e vals) as [m|] eqn:Eb.
+    - (* a modelled built-in *)
+      assert (Hmem : mem_str name s1_builtins = true).
+      { unfold call_frag in Hm. apply orb_true_iff in Hm as [Hm|Hm]; auto.
+        apply builtin_some_sig in Eb. destruct (builtin_sig name); [discriminate|congruence]. }
+      destruct (s1_name_facts name (p_funcs P) Hmem) as (_ & Hl & _).
+      eapply wp_mono; [eapply builtin_sound; eauto; rewrite <- Hl; eauto|]. cbv beta.
+      intros r s2 (S2 & l & -> & E2 & Hi2 & Hl2). exists S2; split; [eauto using ext_trans|split; auto].
+    - destruct (existsb (str_eqb name) unmodelled_builtins); [exact I|].
+      (* a user function *)
+      assert (Hnb : builtin_sig name = None).
+      { unfold call_frag in Hm. apply orb_true_iff in Hm as [Hm|Hm].
+        - apply builtin_none in Eb. congruence.
+        - destruct (builtin_sig name); [discriminate|auto]. }
+      unfold lookup_sig in Hsig. rewrite Hnb in Hsig.
+      destruct (find_func name (p_funcs P)) as [fd|] eqn:Ef; [|discriminate].
+      simpl in Hsig. inversion Hsig; subst sg. clear Hsig.
+      destruct HG as (HG1 & HG2 & HF0). destruct (HF0 fd (find_func_In _ _ _ Ef)) as [Hwt Hfr].
+      unfold wt_func in Hwt.
+      repeat match type of Hwt with _ && _ = true => apply andb_true_iff in Hwt as [Hwt ?] end.
+      match goal with H : is_some (wt_stmts _ _ _ _ (fn_body fd)) = true |- _ => rename H into Hbody end.
+      match goal with H : forallb param_ok _ = true |- _ => rename H into Hpok end.
+      match goal with H : names_distinct _ = true |- _ => rename H into Hnd end.
+      match goal with H : is_none (fn_ret fd) || always_returns (fn_body fd) = true |- _ => rename H into Hret end.
+      match goal with H : match fn_variadic fd with Some _ => _ | None => true end = true |- _ => rename H into Hvar end.
+      unfold s1_func in Hfr. apply andb_true_iff in Hfr as [Hfrb Hfrv].
+      set (pf := params_frame (fn_params fd ++ match fn_variadic fd with Some (n, t) => [(n, TArr t)] | None => [] end)) in *.
+      destruct (wt_stmts (p_funcs P) (Some (fn_ret fd)) false [pf; Gg] (fn_body fd)) as [Gb|] eqn:EGb; [|discriminate].
+      pose proof Hi1 as [Hh1 He1].
+      assert (HGne : G <> []) by (eapply inv_nonempty; eauto).
+      (* the body, in the parameter frame *)
+      assert (TAIL : forall fr' s2 S2, ext S1 S2 -> heap_ok S2 (st_heap s2) ->
+                st_globals s2 = st_globals s1 -> frame_ok S2 pf fr' ->
+                wp ((let* (sig, _) := exec_block f P [fr'] (fn_body fd) in
+                     match sig with
+                     | SigReturn v => Sem.ret v
+                     | _ => let* l := alloc HNone in Sem.ret (Some l)
+                     end) s2) (cpost S G e (fn_ret fd))).
+      { intros fr' s2 S2 E2 Hh2 Hg2 Hfr'.
+        assert (Hgl : globals_ok S2 (st_globals s2)).
+        { rewrite Hg2. eapply globals_ok_ext; eauto. eapply env_ok_globals; eauto. }
+        assert (Hi2 : inv S2 [pf; Gg] [fr'] s2).
+        { split; auto. constructor; auto. constructor; auto. intros k u Hk; exact Hk. }
+        assert (HG2' : genv_ok P [pf; Gg]).
+        { split; [|split; auto]; simpl.
+          - subst pf. rewrite params_frame_not_reserved; auto. rewrite (HGg n_err TBool eq_refl). reflexivity.
+          - subst pf. rewrite params_frame_not_reserved; auto. rewrite (HGg n_errmsg TStr eq_refl). reflexivity. }
+        assert (Hgs : gsub Gb).
+        { apply wt_stmts_grows in EGb; [|discriminate]. apply grows_inv in EGb as (sf & -> & _). exact I. }
+        wbind ltac:(eapply (IHblock P (Some (fn_ret fd)) false [fr'] (fn_body fd) [pf; Gg] Gb S2); eauto).
+        intros [sig e3] s3 (S3 & G3 & E3 & Hh3 & Hg3 & He3 & Hl3 & _ & Hsig & Hmust). simpl in *.
+        assert (Hi3 : inv S3 G e s3).
+        { split; auto. eapply env_ok_reglob; [eapply env_ok_ext; [|exact He1]; eauto using ext_trans|].
+          eapply env_ok_globals; eauto. }
+        assert (E13 : ext S S3) by eauto using ext_trans.
+        destruct sig as [| |v].
+        - (* fell off the end: a procedure *)
+          assert (Hn : fn_ret fd = TNone).
+          { apply orb_true_iff in Hret as [Hr|Hr]; [destruct (fn_ret fd); try discriminate; auto|].
+            destruct (Hmust Hr) as [Hx|(v & Hx)]; discriminate. }
+          rewrite Hn.
+          wbind ltac:(eapply (alloc_epost S S3 G e s3 HNone TNone); eauto; constructor).
+          intros l s4 (S4 & E4 & Hi4 & Hl4). apply wp_ret. exists S4; auto.
+        - simpl in Hsig. discriminate.
+        - apply wp_ret. exists S3; split; [auto|split; [auto|]].
+          destruct v as [l|]; simpl in Hsig.
+          + destruct Hsig as (t & Ht & Hl). inversion Ht; subst. auto.
+          + inversion Hsig; auto. }
+      (* the parameter frame *)
+      unfold sig_args_ok, sig_of_fd in Hok. cbn [fs_var fs_params] in Hok.
+      destruct (fn_variadic fd) as [[vn vt]|] eqn:Ev; cbn [option_map snd] in Hok.
+      + (* variadic *)
+        destruct (fn_params fd) eqn:Eps; [|discriminate]. simpl in Hok.
+        cbn [bind_params]. unfold bindM at 1. cbn [Sem.ret].
+        assert (Hvd : ty_decl (TArr vt) = true).
+        { simpl in Hpok. apply andb_true_iff in Hpok as [Hp _].
+          unfold param_ok in Hp. simpl in Hp. apply andb_true_iff in Hp; tauto. }
+        assert (Hvp : ty_proper vt = true).
+        { unfold ty_decl in Hvd. apply andb_true_iff in Hvd as [Hvd _]. exact Hvd. }
+        assert (Hall : Forall (fun l => sfind S1 l = Some vt) vals).
+        { destruct (ty_proper_not_gen _ Hvp). clear -Hok HF H H0.
+          induction HF as [|l y ls ys Hl _ IHF]; [constructor|]. simpl in Hok. apply andb_true_iff in Hok as [Hk1 Hk2].
+          constructor; auto. apply arg_ok_basic in Hk1; auto. congruence. }
+        assert (Hoka : ty_ok1 (TArr vt) = true).
+        { unfold ty_ok1, ty_decl, fr_tyin in *. apply andb_true_iff in Hvd as [Hp Hsm].
+          destruct strict.
+          - rewrite Hsm, andb_true_r. simpl. rewrite Hfrv. reflexivity.
+          - simpl. rewrite orb_false_r. clear -Hvp. induction vt; simpl in *; auto; discriminate. }
+        apply wp_bind.
+        wbind ltac:(eapply (alloc_wp S1 s1 (HArr vals) (TArr vt)); eauto; constructor; auto).
+        intros a s2 (S2 & E2 & Hh2 & Ha & Hg2). apply wp_ret.
+        eapply (TAIL _ s2 S2); eauto.
+        subst pf. unfold params_frame. simpl.
+        destruct (str_eqb vn underscore) eqn:Evn; simpl.
+        * split; simpl; intros; discriminate.
+        * apply (frame_ok_decl S2 [] [] vn (TArr vt) a); auto. split; simpl; intros; discriminate.
+      + (* fixed parameters *)
+        assert (Hprop : Forall (fun p => ty_proper p = true) (map snd (fn_params fd))).
+        { rewrite app_nil_r in Hpok. rewrite forallb_forall in Hpok. rewrite Forall_forall.
+          intros p Hp. apply in_map_iff in Hp as (q & <- & Hq). specialize (Hpok _ Hq).
+          unfold param_ok, ty_decl in Hpok. apply andb_true_iff in Hpok as [_ Hpok].
+          apply andb_true_iff in Hpok; tauto. }
+        apply args_ok_eq in Hok; auto. subst ts.
+        wbind ltac:(eapply (bind_params_ok S1 (fn_params fd) vals [] [] s1); eauto).
+        * split; simpl; intros; discriminate.
+        * rewrite Forall_forall. intros; reflexivity.
+        * rewrite app_nil_r in Hnd. exact Hnd.
+        * intros [fr rest] s2 [-> Hfr]. unfold bindM at 1. cbn [Sem.ret].
+          eapply (TAIL _ s1 S1); eauto using ext_refl.
+          subst pf. simpl in Hfr. rewrite !app_nil_r in *. exact Hfr.
+  Qed.
+End CallStep.
+
 (* ---------- blocks and loops ---------- *)
 Ltac kdone S' :=
   exists S'; split; [eauto using ext_trans, ext_refl | split; [eassumption | simpl in *; congruence]].
@@ -1928,29 +2313,39 @@ Section CtlStep.
 
   Lemma block_step : block_sound (S f).
   Proof.
-    intros P ret il e l G G' S s Hwt Hs1 HG Hi. cbn [exec_block].
+    intros P ret il e l G G' S s Hwt Hs1 HG Hi Hgs. cbn [exec_block].
     apply wp_bind. eapply tick_inv; [exact Hi|]. intros s' Hi'. eapply IHstmts; eauto.
   Qed.
 
   Lemma stmts_step : stmts_sound (S f).
   Proof.
-    intros P ret il e l G G' S s Hwt Hs1 HG Hi. cbn [exec_stmts]. destruct l as [|st l].
+    intros P ret il e l G G' S s Hwt Hs1 HG Hi Hgs. cbn [exec_stmts].
+    pose proof (inv_nonempty _ _ _ _ Hi) as HGne.
+    destruct l as [|st l].
     - simpl in Hwt; inversion Hwt; subst. apply wp_ret.
       exists S, G'. simpl. destruct Hi as [Hh He].
-      repeat split; auto using ext_refl, grows_refl; try apply Hh.
-      apply grows_refl. eapply inv_nonempty; split; eauto.
+      split; [apply ext_refl|]. split; [auto|]. split; [apply grows_refl; auto|]. split; [auto|].
+      split; [auto|]. split; [auto|]. split; [exact I|apply must_ret_false].
     - cbn [wt_stmts] in Hwt. cbn [s1_stmts] in Hs1. apply andb_true_iff in Hs1 as [Hs1a Hs1b].
       destruct (wt_stmt (p_funcs P) ret il G st) as [G1|] eqn:E1; [|discriminate].
-      wbind ltac:(eapply IHstmt; eauto). intros [sig e1] s1 (S1 & G1' & Ex1 & Hh1 & Hg1 & He1 & Hl1 & Hn1).
-      simpl in *.
+      assert (Hg01 : grows G G1) by (eapply wt_stmt_grows; eauto).
+      assert (Hg1' : grows G1 G') by (eapply wt_stmts_grows; eauto using grows_nonempty).
+      wbind ltac:(eapply IHstmt; eauto using gsub_grows).
+      intros [sig e1] s1 (S1 & G1' & Ex1 & Hh1 & Hg1 & He1 & Hl1 & Hn1 & Hsg1 & Hm1). simpl in *.
       destruct (is_ctl sig) eqn:Ec.
-      + apply wp_ret. exists S1, G1'. simpl. repeat split; auto; try apply Hh1.
-        intros ->; discriminate.
+      + apply wp_ret. exists S1, G1'. simpl.
+        split; [auto|]. split; [auto|]. split; [auto|]. split; [auto|]. split; [auto|].
+        split; [intros ->; discriminate|]. split; [auto|].
+        intros _. destruct sig as [| |v]; [discriminate|left; reflexivity|right; eauto].
       + assert (sig = SigNone) by (destruct sig; auto; discriminate). subst sig.
         rewrite (Hn1 eq_refl) in *.
         eapply wp_mono; [eapply (IHstmts P ret il e1 l G1 G' S1); eauto using genv_ok_grows; split; auto|].
-        cbv beta. intros [sig2 e2] s2 (S2 & G2 & Ex2 & Hh2 & Hg2 & He2 & Hl2 & Hn2). simpl in *.
-        exists S2, G2. simpl. repeat split; eauto using ext_trans, grows_trans; try apply Hh2. congruence.
+        cbv beta. intros [sig2 e2] s2 (S2 & G2 & Ex2 & Hh2 & Hg2 & He2 & Hl2 & Hn2 & Hsg2 & Hm2). simpl in *.
+        exists S2, G2. simpl.
+        split; [eauto using ext_trans|]. split; [auto|]. split; [eauto using grows_trans|]. split; [auto|].
+        split; [congruence|]. split; [auto|]. split; [auto|].
+        intros Hr. cbn [always_returns existsb] in Hr. apply orb_true_iff in Hr as [Hr|Hr]; [|auto].
+        destruct (Hm1 Hr) as [Hx|(v & Hx)]; discriminate.
   Qed.
 
   Lemma cond_step : cond_sound (S f).
@@ -1961,21 +2356,26 @@ Section CtlStep.
     intros l s1 (S1 & E1 & Hi1 & Hl1).
     wbind ltac:(eapply load_wp; eauto; apply Hi1). intros v s2 [-> Hv]. inversion Hv; subst.
     destruct b.
-    - wbind ltac:(eapply (IHblock P ret il ([] :: e) body (push G) Gb S1); eauto using genv_ok_push).
+    - assert (Hgs : gsub Gb) by (eapply gsub_push_result; eauto; eapply wt_stmts_grows; eauto; discriminate).
+      wbind ltac:(eapply (IHblock P ret il ([] :: e) body (push G) Gb S1); eauto using genv_ok_push).
       intros [sig e2] s2 Hp. apply wp_ret.
-      eapply (pop_post S1 G Gb e (sig, e2) s2 (Some sig)) in Hp; auto.
-      destruct Hp as (S2 & E2 & Hi2 & Hl2). exists S2; eauto using ext_trans.
-    - apply wp_ret. exists S1; split; auto. split; auto. eapply inv_unpush; eauto.
+      eapply pop_post in Hp; auto.
+      destruct Hp as (S2 & E2 & Hi2 & Hl2 & Hsg & Hm). exists S2. simpl in *.
+      split; [eauto using ext_trans|]. split; [auto|]. split; auto.
+    - apply wp_ret. exists S1; split; auto. split; [eapply inv_unpush; eauto|]. simpl; auto.
   Qed.
 
   Lemma while_step : while_sound (S f).
   Proof.
     intros P ret e c body G Gb S s Hc Hb Hs1c Hs1b HG Hi. cbn [exec_while].
-    wbind ltac:(eapply IHcond; eauto). intros [r e1] s1 (S1 & E1 & Hi1 & Hl1). simpl in *.
-    assert (K : kpost S G e (SigNone, e1) s1) by (exists S1; auto).
-    destruct r as [[| |v]|]; try (apply wp_ret; destruct K as (S' & K1 & K2 & K3); exists S'; auto).
-    eapply wp_mono; [eapply (IHwhile P ret e1 c body G Gb S1); eauto|]. cbv beta.
-    intros [sig e2] s2 (S2 & E2 & Hi2 & Hl2). kdone S2.
+    wbind ltac:(eapply IHcond; eauto). intros [r e1] s1 (S1 & E1 & Hi1 & Hl1 & Hr). simpl in *.
+    destruct r as [[| |v]|].
+    - eapply wp_mono; [eapply (IHwhile P ret e1 c body G Gb S1); eauto|]. cbv beta.
+      intros [sig e2] s2 (S2 & E2 & Hi2 & Hl2 & Hs2). exists S2. simpl in *.
+      split; [eauto using ext_trans|]. split; [auto|]. split; [congruence|auto].
+    - apply wp_ret. exists S1; simpl; auto.
+    - apply wp_ret. exists S1; simpl. destruct Hr as [Hr _]. auto.
+    - apply wp_ret. exists S1; simpl; auto.
   Qed.
 
   Lemma for_next_wp S G e s named rg :
@@ -2061,32 +2461,32 @@ Section CtlStep.
     intros P ret e var rg body G fr0 named Gb S s Hb Hs1 HG Hi Hfr Hrg. cbn [exec_for].
     wbind ltac:(eapply for_next_wp; eauto). intros nx s1 (S1 & E1 & Hi1 & Hnx).
     destruct nx as [[l rg']|].
-    2:{ apply wp_ret. exists S1; auto. }
+    2:{ apply wp_ret. exists S1; simpl; auto. }
     destruct Hnx as [Hrg' Hl].
     (* rebinding of the loop variable *)
     assert (U : wp (update_var var l e s1)
                    (fun e1 s2 => inv S1 (fr0 :: G) e1 s2 /\ List.length e1 = List.length e)).
     { destruct named as [vt|]; simpl in Hfr.
-      - destruct Hfr as [Hbo ->]. pose proof (binder_not_reserved _ Hbo) as (_ & _ & Hus).
-        destruct Hi1 as [Hh1 He1].
+      - destruct Hfr as [Hbo ->].
         assert (Hsl : slookup var ([(var, vt)] :: G) = Some vt) by (simpl; rewrite str_eqb_refl; auto).
-        destruct (env_get_sound _ _ _ _ _ He1 Hsl) as (l0 & Hl0 & _).
-        destruct (env_update_some var l (full e s1)) as (fe' & Hfe'); [congruence|].
-        eapply wp_mono; [eapply update_var_wp; eauto|]. cbv beta. intros e1 s2 (H1 & H2 & H3).
-        split; auto. split; [rewrite H1; auto|]. rewrite H3. eapply env_update_ok; eauto.
+        eapply update_var_ok; eauto.
       - destruct Hfr as [-> ->]. unfold update_var. simpl. auto. }
     wbind ltac:(exact U). intros e1 s2 [Hi2 Hl2].
     assert (HGne : fr0 :: G <> []) by discriminate.
+    assert (Hgs : gsub Gb) by (eapply gsub_push_result; eauto; eapply wt_stmts_grows; eauto; discriminate).
     wbind ltac:(eapply (IHblock P ret true ([] :: e1) body (push (fr0 :: G)) Gb S1);
                 eauto using inv_push, genv_ok_push).
     intros [sig e2'] s3 Hp.
-    eapply (pop_post S1 (fr0 :: G) Gb e1 (sig, e2') s3 sig) in Hp; auto.
-    destruct Hp as (S3 & E3 & Hi3 & Hl3). simpl in *.
+    eapply pop_post in Hp; auto.
+    destruct Hp as (S3 & E3 & Hi3 & Hl3 & Hsg3 & _). simpl in *.
     destruct sig.
     - eapply wp_mono; [eapply (IHfor P ret (tl e2') var rg' body G fr0 named Gb S3); eauto using rg_ok_ext|].
-      cbv beta. intros [sig4 e4] s4 (S4 & E4 & Hi4 & Hl4). kdone S4.
-    - apply wp_ret. kdone S3.
-    - apply wp_ret. kdone S3.
+      cbv beta. intros [sig4 e4] s4 (S4 & E4 & Hi4 & Hl4 & Hs4). exists S4. simpl in *.
+      split; [eauto using ext_trans|]. split; [auto|]. split; [rewrite Hl4, Hl3; exact Hl2|auto].
+    - apply wp_ret. exists S3. simpl.
+      split; [eauto using ext_trans|]. split; [auto|]. split; [rewrite Hl3; exact Hl2|auto].
+    - apply wp_ret. exists S3. simpl.
+      split; [eauto using ext_trans|]. split; [auto|]. split; [rewrite Hl3; exact Hl2|auto].
   Qed.
 End CtlStep.
 
@@ -2110,12 +2510,17 @@ Section StmtStep.
   Let IHwhile : while_sound f := proj1 (proj2 (proj2 (proj2 (proj2 (proj2 (proj2 (proj2 IH))))))).
   Let IHfor : for_sound f := proj2 (proj2 (proj2 (proj2 (proj2 (proj2 (proj2 (proj2 IH))))))).
 
+  Definition ipost (S : sty) (G : tyenv) (e : env) (rt : option ty) (il mr : bool)
+    : signal * env -> state -> Prop :=
+    fun r s' => exists S', ext S S' /\ inv S' G (snd r) s' /\ List.length (snd r) = List.length e /\
+                           sig_ok S' rt il (fst r) /\ must_ret mr (fst r).
+
   Lemma if_go_wp P rt il els G :
     match els with
     | Some body => is_some (wt_stmts (p_funcs P) rt il (push G) body) = true /\ s1_stmts strict body = true
     | None => True
     end ->
-    genv_ok G ->
+    genv_ok P G ->
     forall conds e s S,
       conds_wt (p_funcs P) rt il G conds = true -> conds_s1 conds = true -> inv S G e s ->
       wp ((fix go (cs : list (expr * list stmt)) (e : env) : M (signal * env) :=
@@ -2133,38 +2538,47 @@ Section StmtStep.
                  | Some sig => ret (sig, e1)
                  | None => go t e1
                  end
-             end) conds e s) (kpost S G e).
+             end) conds e s)
+         (ipost S G e rt il (conds_ret conds && match els with Some b => always_returns b | None => false end)).
   Proof.
     intros Hels HG. induction conds as [|[c body] conds IHl]; intros e s S Hwt Hs1 Hi.
-    - destruct els as [body|].
+    - pose proof (inv_nonempty _ _ _ _ Hi) as HGne. destruct els as [body|].
       + destruct Hels as [Hb Hsb].
         destruct (wt_stmts (p_funcs P) rt il (push G) body) as [Gb|] eqn:Eb; [|discriminate].
+        assert (Hgs : gsub Gb) by (eapply gsub_push_result; eauto; eapply wt_stmts_grows; eauto; discriminate).
         wbind ltac:(eapply (IHblock P rt il ([] :: e) body (push G) Gb S); eauto using inv_push, genv_ok_push).
         intros [sig e1] s1 Hp. apply wp_ret.
-        eapply (pop_post S G Gb e (sig, e1) s1 sig) in Hp; eauto using inv_nonempty.
-      + apply wp_ret. kdone S.
+        eapply pop_post in Hp; auto.
+      + apply wp_ret. exists S. simpl.
+        split; [apply ext_refl|]. split; [auto|]. split; [auto|]. split; [exact I|apply must_ret_false].
     - cbn [conds_wt] in Hwt. cbn [conds_s1] in Hs1.
       apply andb_true_iff in Hwt as [Hwt Hwt3]. apply andb_true_iff in Hwt as [Hwt1 Hwt2].
       apply andb_true_iff in Hs1 as [Hs1 Hs13]. apply andb_true_iff in Hs1 as [Hs11 Hs12].
       apply opt_ty_eqb_eq in Hwt1.
       destruct (wt_stmts (p_funcs P) rt il (push G) body) as [Gb|] eqn:Eb; [|discriminate].
-      wbind ltac:(eapply IHcond; eauto). intros [r e1] s1 (S1 & E1 & Hi1 & Hl1). simpl in *.
+      wbind ltac:(eapply IHcond; eauto). intros [r e1] s1 (S1 & E1 & Hi1 & Hl1 & Hr). simpl in *.
       destruct r as [sig|].
-      + apply wp_ret. kdone S1.
+      + apply wp_ret. destruct Hr as [Hr1 Hr2]. exists S1. simpl.
+        split; [auto|]. split; [auto|]. split; [auto|]. split; [auto|].
+        intros Hm. apply Hr2. apply andb_true_iff in Hm as [Hm _]. apply andb_true_iff in Hm; tauto.
       + eapply wp_mono; [eapply (IHl e1 s1 S1); eauto|]. cbv beta.
-        intros [sig e2] s2 (S2 & E2 & Hi2 & Hl2). kdone S2.
+        intros [sig e2] s2 (S2 & E2 & Hi2 & Hl2 & Hs2 & Hm2). exists S2. simpl in *.
+        split; [eauto using ext_trans|]. split; [auto|]. split; [rewrite Hl2; auto|]. split; [auto|].
+        intros Hm. apply Hm2. apply andb_true_iff in Hm as [Hm Hm']. apply andb_true_iff in Hm as [_ Hm].
+        rewrite Hm, Hm'. reflexivity.
   Qed.
 
-  Lemma spost_same S0 S G e e' s' sig :
-    ext S0 S -> inv S G e' s' -> List.length e' = List.length e -> spost S0 G G e (sig, e') s'.
+  Lemma spost_same S0 S G e ret il e' s' sig :
+    ext S0 S -> inv S G e' s' -> List.length e' = List.length e -> sig_ok S ret il sig ->
+    spost S0 G G e ret il false (sig, e') s'.
   Proof.
-    intros E [Hh He] Hl. exists S, G. simpl. repeat split; auto; try apply Hh.
-    apply grows_refl. eapply inv_nonempty; split; eauto.
+    intros E [Hh He] Hl Hs. exists S, G. simpl.
+    split; [auto|]. split; [auto|]. split; [apply grows_refl; eapply inv_nonempty; split; eauto|].
+    split; [auto|]. split; [auto|]. split; [auto|]. split; [auto|apply must_ret_false].
   Qed.
-
 
   Lemma num_wp P e1 x G1 S s :
-    ety (p_funcs P) G1 x = Some TNum -> s1_expr strict x = true -> genv_ok G1 -> inv S G1 e1 s ->
+    ety (p_funcs P) G1 x = Some TNum -> s1_expr strict x = true -> genv_ok P G1 -> inv S G1 e1 s ->
     wp ((let* l := eval_expr f P e1 x in
          let* v := load l in
          match v with HNum y => Sem.ret y | _ => internal "expected number" end) s)
@@ -2226,18 +2640,15 @@ Section StmtStep.
     - destruct (Hv v eq_refl) as [Hb Hm]. pose proof (binder_not_reserved _ Hb) as (_ & _ & Hus).
       wbind ltac:(exact Hm). intros z s1 (S1 & E1 & Hh1 & Hg1 & Hz).
       assert (Hi1 : inv S1 (push G) ([] :: e) s1) by (eapply inv_step; eauto).
-      eapply wp_mono; [eapply set_var_wp; eauto|]. cbv beta.
-      intros e2 s2 (H1 & H2 & f0 & rest & H3 & H4).
-      exists S1; split; auto. split; [|simpl in H2; auto].
-      destruct Hi1 as [_ He1]. rewrite H3 in He1. inversion He1; subst.
-      split; [rewrite H1; auto|]. rewrite H4. constructor; auto.
-      apply frame_ok_decl; auto.
+      pose proof (inv_nonempty _ _ _ _ (inv_unpush _ _ _ _ _ _ Hi1)) as HGne.
+      eapply wp_mono; [eapply (set_var_ok S1 [] G ([] :: e) s1 v vt z); eauto; congruence|].
+      cbv beta. intros e2 s2 [Hi2 Hl2]. exists S1; split; auto.
     - apply wp_ret. exists S; split; auto using ext_refl.
   Qed.
 
   Lemma stmt_step : stmt_sound (S f).
   Proof.
-    intros P ret il e st G G' S s Hwt Hs1 HG Hi.
+    intros P ret il e st G G' S s Hwt Hs1 HG Hi Hgs.
     pose proof (inv_nonempty _ _ _ _ Hi) as HGne.
     destruct st; cbn [exec_stmt];
       (apply wp_bind; eapply tick_inv; [exact Hi|]; clear s Hi; intros s Hi); pose proof Hi as [Hh He].
@@ -2254,15 +2665,14 @@ Section StmtStep.
       wbind ltac:(eapply copy_or_ref_wp; eauto using ty_decl_not_none; apply Hi1).
       intros c s2 (S2 & E2 & Hh2 & Hg2 & Hc).
       assert (Hi2 : inv S2 (fr :: G0) e s2) by (eapply inv_step; eauto).
-      wbind ltac:(eapply set_var_wp; eauto). intros e' s3 (H1 & H2 & f0 & rest & H3 & H4).
+      assert (Hnf : sget name fr = None) by (destruct (sget name fr); [discriminate|auto]).
+      wbind ltac:(eapply (set_var_ok S2 fr G0 e s2 name t c); eauto).
+      { intros ->. exact Hgs. }
+      intros e' s3 [[Hh3 He3] Hl3].
       apply wp_ret. exists S2, (((name, t) :: fr) :: G0). simpl.
-      destruct Hi2 as [_ He2]. rewrite H3 in He2. inversion He2; subst.
-      split; [eauto using ext_trans|]. split; [rewrite H1; auto|]. split.
-      { exists fr, ((name, t) :: fr), G0. repeat split; auto.
-        constructor; [constructor| |]; auto.
-        destruct (sget name fr); [discriminate|auto]. }
-      split; [|auto]. rewrite H4. constructor; auto.
-      apply frame_ok_decl; auto. destruct (sget name fr); [discriminate|auto].
+      split; [eauto using ext_trans|]. split; [auto|]. split.
+      { exists fr, ((name, t) :: fr), G0. repeat split; auto. constructor; [constructor| |]; auto. }
+      split; [auto|]. split; [auto|]. split; [auto|]. split; [exact I|apply must_ret_false].
     - (* SAssign *)
       cbn [wt_stmt] in Hwt. cbn [s1_stmt] in Hs1. apply andb_true_iff in Hs1 as [Hs1a Hs1b].
       destruct (ety (p_funcs P) G target) as [tg|] eqn:Etg; [|discriminate].
@@ -2293,12 +2703,8 @@ Section StmtStep.
         match type of Etg with (if ?c then _ else _) = _ => destruct c eqn:Ec; inversion Etg; subst end.
         apply andb_true_iff in Ec as [Ec Ec3]. apply andb_true_iff in Ec as [Ec1 Ec2].
         apply negb_true_iff in Ec1. apply opt_ty_eqb_eq in Ec2.
-        destruct Hi2 as [_ He2].
-        destruct (env_get_sound _ _ _ _ _ He2 Ec2) as (l0 & Hl0 & _).
-        destruct (env_update_some name v (full e s2)) as (fe' & Hfe'); [congruence|].
-        wbind ltac:(eapply update_var_wp; eauto). intros e' s3 (H1 & H2 & H3).
-        apply wp_ret. eapply (spost_same S S2); eauto using ext_trans.
-        split; [rewrite H1; auto|]. rewrite H3. eapply env_update_ok; eauto.
+        wbind ltac:(eapply update_var_ok; eauto). intros e' s3 [Hi3 Hl3].
+        apply wp_ret. eapply (spost_same S S2); eauto using ext_trans. exact I.
       + (* array element *)
         cbn [ety] in Etg. cbn [s1_expr] in Hs1a.
         apply andb_true_iff in Hs1a as [Hs1a Hs1a3]. apply andb_true_iff in Hs1a as [Hs1a1 Hs1a2].
@@ -2319,8 +2725,7 @@ Section StmtStep.
           wbind ltac:(eapply (store_wp S4 s4 la (HArr (list_set els k v)) (TArr tg)); eauto).
           { constructor. apply list_set_Forall; auto. }
           intros _ s5 [Hh5 Hg5]. apply wp_ret.
-          eapply (spost_same S S4); eauto using ext_trans.
-          split; auto. unfold full in *. rewrite Hg5. auto.
+          eapply (spost_same S S4); eauto using ext_trans; [eapply inv_store; eauto|exact I].
         * (* map entry *)
           destruct ti; try discriminate.
           match type of Etg with (if ?c then _ else _) = _ => destruct c eqn:Ec; inversion Etg; subst end.
@@ -2329,8 +2734,7 @@ Section StmtStep.
           wbind ltac:(eapply load_str_wp; eauto). intros ks s5 ->.
           wbind ltac:(eapply (map_set_key_wp S4 s4 la ks v tg); eauto).
           intros _ s5 [Hh5 Hg5]. apply wp_ret.
-          eapply (spost_same S S4); eauto using ext_trans.
-          split; auto. unfold full in *. rewrite Hg5. auto.
+          eapply (spost_same S S4); eauto using ext_trans; [eapply inv_store; eauto|exact I].
       + (* map field *)
         cbn [ety] in Etg. cbn [s1_expr] in Hs1a. apply andb_true_iff in Hs1a as [Hs1a1 Hs1a2].
         destruct (ety (p_funcs P) G' target) as [ta|] eqn:Ea; [|discriminate].
@@ -2342,26 +2746,43 @@ Section StmtStep.
         wbind ltac:(eapply load_wp; [exact Hh3|]; eauto). intros va s4 [-> Hva]. inversion Hva; subst.
         wbind ltac:(eapply (map_set_key_wp S3 s3 la key v tg); eauto).
         intros _ s4 [Hh4 Hg4]. apply wp_ret.
-        eapply (spost_same S S3); eauto using ext_trans.
-        split; auto. unfold full in *. rewrite Hg4. auto.
+        eapply (spost_same S S3); eauto using ext_trans; [eapply inv_store; eauto|exact I].
     - (* SCallStmt *)
       cbn [wt_stmt] in Hwt. rewrite s1_stmt_SCallStmt in Hs1. apply andb_true_iff in Hs1 as [Hs1a Hs1b].
       unfold call_ty in Hwt.
       destruct (lookup_sig (p_funcs P) name) as [sg|] eqn:Esg; [|discriminate].
       destruct (etys (p_funcs P) G args) as [ts|] eqn:Ets; [|discriminate].
       destruct (sig_args_ok sg ts) eqn:Eok; [|discriminate]. inversion Hwt; subst.
-      wbind ltac:(eapply IHc; eauto). intros r s1 (S1 & l & -> & E1 & Hi1 & Hl1).
-      apply wp_ret. eapply (spost_same S S1); eauto.
-    - (* SReturn *) discriminate.
+      wbind ltac:(eapply IHc; eauto). intros r s1 (S1 & E1 & Hi1 & _).
+      apply wp_ret. eapply (spost_same S S1); eauto. exact I.
+    - (* SReturn *)
+      cbn [wt_stmt] in Hwt. cbn [s1_stmt] in Hs1.
+      assert (MR : forall v, must_ret true (SigReturn v)) by (intros v _; right; eauto).
+      destruct e0 as [x|].
+      + destruct ret as [t|]; [|discriminate].
+        match type of Hwt with (if ?c then _ else _) = _ => destruct c eqn:Ec; inversion Hwt; subst end.
+        apply andb_true_iff in Ec as [Ec1 Ec2]. apply opt_ty_eqb_eq in Ec2. simpl in Hs1.
+        wbind ltac:(eapply IHe; eauto). intros l s1 (S1 & E1 & [Hh1 He1] & Hl1).
+        apply wp_ret. exists S1, G'. simpl.
+        split; [auto|]. split; [auto|]. split; [apply grows_refl; auto|]. split; [auto|]. split; [auto|].
+        split; [auto|]. split; [eauto|apply MR].
+      + destruct ret as [[]|]; try discriminate. inversion Hwt; subst.
+        apply wp_ret. exists S, G'. simpl.
+        split; [apply ext_refl|]. split; [auto|]. split; [apply grows_refl; auto|]. split; [auto|]. split; [auto|].
+        split; [auto|]. split; [reflexivity|apply MR].
     - (* SBreak *)
       cbn [wt_stmt] in Hwt. destruct il; inversion Hwt; subst.
       apply wp_ret. eapply (spost_same S S); eauto using ext_refl.
     - (* SIf *)
       rewrite wt_stmt_SIf in Hwt. rewrite s1_stmt_SIf in Hs1. apply andb_true_iff in Hs1 as [Hs1a Hs1b].
       match type of Hwt with (if ?c && ?d then _ else _) = _ => destruct c eqn:Ec; destruct d eqn:Ed; inversion Hwt; subst end.
+      rewrite stmt_returns_SIf.
       eapply wp_mono; [eapply (if_go_wp P ret il els G'); eauto|].
       { destruct els; auto. }
-      cbv beta. intros [sig e1] s1 K. eapply spost_of_kpost; eauto.
+      cbv beta. intros [sig e1] s1 (S1 & E1 & [Hh1 He1] & Hl1 & Hs & Hm). simpl in *.
+      exists S1, G'. simpl.
+      split; [auto|]. split; [auto|]. split; [apply grows_refl; auto|]. split; [auto|]. split; [auto|].
+      split; [auto|]. split; [auto|]. destruct els; [exact Hm|apply must_ret_false].
     - (* SWhile *)
       rewrite wt_stmt_SWhile in Hwt. rewrite s1_stmt_SWhile in Hs1. apply andb_true_iff in Hs1 as [Hs1a Hs1b].
       match type of Hwt with (if ?c && _ then _ else _) = _ => destruct c eqn:Ec; simpl in Hwt; [|discriminate] end.
@@ -2386,7 +2807,7 @@ Section StmtStep.
         - destruct (wt_stmts (p_funcs P) ret true (push ([] :: G)) body) as [Gb|] eqn:Eb; inversion Hwt; subst.
           split; [|eauto]. discriminate. }
       destruct HS as (Hvar & (Gb & Hbody) & ->). clear Hwt.
-      assert (HG2 : genv_ok (fr0 :: G)).
+      assert (HG2 : genv_ok P (fr0 :: G)).
       { unfold fr0. destruct var as [v|]; [|exact HG]. destruct (Hvar v eq_refl) as (Hb & _). apply genv_ok_frame; auto. }
       assert (Hff : for_frame named vname fr0).
       { unfold named, vname, fr0. destruct var as [v|]; simpl; auto. destruct (Hvar v eq_refl); auto. }
@@ -2461,13 +2882,13 @@ Section StmtStep.
             unfold named. destruct var as [v|]; auto. destruct (Hvar v eq_refl) as (_ & -> & _); auto. }
       cbv beta. intros [rg e2] s1 (S1 & E1 & Hi1 & Hrg & Hl1). simpl in *.
       wbind ltac:(eapply (IHfor P ret e2 vname rg body G fr0 named Gb S1); eauto).
-      intros [sig e3] s2 (S2 & E2 & [Hh2 He2] & Hl2). simpl in *. apply wp_ret.
+      intros [sig e3] s2 (S2 & E2 & [Hh2 He2] & Hl2 & Hsg). simpl in *. apply wp_ret.
       apply env_ok_pop in He2 as [He2 Hne]; auto.
-      eapply (spost_same S S2); eauto using ext_trans.
+      eapply (spost_same S S2); eauto using ext_trans, sig_ok_noloop.
       + split; auto.
-      + destruct e3; [congruence|]. simpl in *. lia.
+      + destruct e3; [congruence|]. simpl in *. rewrite Hl1 in Hl2. injection Hl2; auto.
     - (* SNop *)
-      inversion Hwt; subst. apply wp_ret. eapply (spost_same S S); eauto using ext_refl.
+      inversion Hwt; subst. apply wp_ret. eapply (spost_same S S); eauto using ext_refl. exact I.
   Qed.
 End StmtStep.
 
@@ -2488,12 +2909,9 @@ Definition goes_wrong_s (o : outcome) : Prop :=
 
 Definition genv0 : tyenv := [global_frame0].
 
-(* a state a run may start from: some store typing makes the heap well typed
-   and the globals are the built-in ones at their types *)
+(* a state a run may start from: some store typing makes the heap well typed and the globals are
+   (a part of) the program's globals at their types, err and errmsg among them *)
 Definition state_ok (s : state) : Prop := exists S, inv S genv0 [] s.
-
-Lemma genv0_ok : genv_ok genv0.
-Proof. split; reflexivity. Qed.
 
 Lemma heap_ok_empty : heap_ok (PositiveMap.empty ty) hempty.
 Proof.
@@ -2506,41 +2924,41 @@ Proof.
   destruct (heap_ok_alloc _ _ (HStr []) TStr H1 (CStr _ []) ok1_TStr) as (E2 & H2 & F2).
   destruct (heap_ok_alloc _ _ (HNum (float_of_bits pi_bits)) TNum H2 (CNum _ _) ok1_TNum) as (E3 & H3 & F3).
   eexists. split; [exact H3|].
-  unfold full, genv0. cbn [init_state st_globals app]. constructor; [|constructor].
-  change global_frame0 with [(n_err, TBool); (n_errmsg, TStr); (s_ "pi", TNum)].
+  unfold genv0. constructor; [exact HGg|].
   change (st_globals (init_state stop input ff ay))
     with [(n_err, 1%positive); (n_errmsg, 2%positive); (s_ "pi", 3%positive)].
-  split.
-  - intros n t. cbn [sget frame_get].
-    repeat match goal with |- context [str_eqb ?k n] =>
-      destruct (str_eqb k n);
-      [intros H; inversion H; subst; eexists; split; [reflexivity|];
-       first [reflexivity | apply F3 | apply E3, F2 | apply E3, E2, F1]|] end.
-    discriminate.
-  - intros n l. cbn [sget frame_get].
-    repeat match goal with |- context [str_eqb ?k n] => destruct (str_eqb k n); [discriminate|] end.
-    discriminate.
+  split; [|split; discriminate].
+  intros n l. cbn [frame_get].
+  repeat match goal with |- context [str_eqb ?k n] =>
+    let E := fresh "E" in
+    destruct (str_eqb k n) eqn:E;
+    [apply str_eqb_eq in E; subst n; intros H; inversion H; subst; eexists; split; [apply HGg; reflexivity|];
+     first [reflexivity | apply F3 | apply E3, F2 | apply E3, E2, F1]|clear E] end.
+  discriminate.
 Qed.
 
-Lemma wt_program_top P : wt_program P = true ->
-  exists G', wt_stmts (p_funcs P) None false genv0 (p_stmts P) = Some G'.
-Proof.
-  unfold wt_program, wt_top, genv0. destruct (wt_stmts (p_funcs P) None false _ (p_stmts P)); [eauto|discriminate].
-Qed.
-
-(* Soundness, generic in [strict] *)
+(* Soundness, generic in [strict]; Gg is the global frame of the program *)
 Theorem soundness_generic P :
-  wt_program P = true -> s1_stmts strict (p_stmts P) = true ->
+  wt_top P = Some Gg ->
+  forallb (wt_func (p_funcs P) Gg) (p_funcs P) = true ->
+  s1_stmts strict (p_stmts P) = true -> forallb (s1_func strict) (p_funcs P) = true ->
   forall fuel s0, state_ok s0 -> ~ goes_wrong_s (fst (run_program fuel P s0)).
 Proof.
-  intros Hwt Hs1 fuel s0 (S & Hi) Hbad.
-  destruct (wt_program_top P Hwt) as (G' & Htop).
+  intros Htop Hfs Hs1 Hs1f fuel s0 (S & Hi) Hbad.
+  assert (Htop' : wt_stmts (p_funcs P) None false genv0 (p_stmts P) = Some [Gg]).
+  { unfold wt_top, genv0 in *.
+    destruct (wt_stmts (p_funcs P) None false [global_frame0] (p_stmts P)) as [[|g [|]]|]; try discriminate.
+    inversion Htop; subst; auto. }
+  assert (HG : genv_ok P genv0).
+  { split; [reflexivity|split; [reflexivity|]]. intros fd Hfd.
+    rewrite forallb_forall in Hfs, Hs1f. auto. }
   destruct (all_sound_n fuel) as (_ & _ & _ & _ & Hstmts & _).
   assert (W : wp ((let* _ := tick in let* _ := exec_stmts fuel P [] (p_stmts P) in Sem.ret tt) s0)
                  (fun _ _ => True)).
   { apply wp_bind. eapply tick_inv; [exact Hi|]. intros s1 Hi1.
-    wbind ltac:(eapply (Hstmts P None false [] (p_stmts P) genv0 G' S); eauto using genv0_ok).
-    intros r s2 _. exact I. }
+    wbind ltac:(eapply (Hstmts P None false [] (p_stmts P) genv0 [Gg] S); eauto).
+    - intros n t H; exact H.
+    - intros r s2 _. exact I. }
   unfold run_program in Hbad.
   destruct ((let* _ := tick in let* _ := exec_stmts fuel P [] (p_stmts P) in Sem.ret tt) s0) as [[u|er] s1].
   - simpl in Hbad. destruct (Nat.ltb 0 (st_fails (test_report s1))); exact Hbad.
@@ -2552,7 +2970,7 @@ Qed.
    cell of dynamic type t in an extended store typing that still types heap
    and environment; no evaluation ends in an internal error or a host crash. *)
 Theorem preservation_generic : forall n P e x G t S s,
-  ety (p_funcs P) G x = Some t -> s1_expr strict x = true -> genv_ok G -> inv S G e s ->
+  ety (p_funcs P) G x = Some t -> s1_expr strict x = true -> genv_ok P G -> inv S G e s ->
   match eval_expr n P e x s with
   | (Ok l, s') => exists S', ext S S' /\ inv S' G e s' /\ sfind S' l = Some t
   | (Er er, _) => safe_err er
@@ -2592,12 +3010,49 @@ Definition goes_wrong_badly (o : outcome) : Prop :=
   | _ => False
   end.
 
+(* the global frame of a checked program extends the built-in globals *)
+Lemma wt_top_extends P g : wt_top P = Some g ->
+  forall n t, sget n global_frame0 = Some t -> sget n g = Some t.
+Proof.
+  unfold wt_top. destruct (wt_stmts (p_funcs P) None false [global_frame0] (p_stmts P)) as [G'|] eqn:E; [|discriminate].
+  intros Hg. apply wt_stmts_grows in E; [|discriminate].
+  apply grows_inv in E as (sf & -> & Hf). inversion Hg; subst. apply fgrows_sub. exact Hf.
+Qed.
+
+(* a start state of program P: well typed w.r.t. the global frame the checker computes for P *)
+Definition start_ok (strict : bool) (P : program) (s : state) : Prop :=
+  exists g, wt_top P = Some g /\ state_ok strict g s.
+
+Lemma wt_program_inv P : wt_program P = true ->
+  exists g, wt_top P = Some g /\ forallb (wt_func (p_funcs P) g) (p_funcs P) = true.
+Proof.
+  unfold wt_program. destruct (wt_top P) as [g|]; [|discriminate].
+  intros H. apply andb_true_iff in H as [H _]. eauto.
+Qed.
+
+Lemma init_state_start_ok strict P stop input ff ay :
+  wt_program P = true -> start_ok strict P (init_state stop input ff ay).
+Proof.
+  intros H. destruct (wt_program_inv P H) as (g & Hg & _). exists g; split; auto.
+  apply init_state_ok. eapply wt_top_extends; eauto.
+Qed.
+
+Lemma soundness_inst strict P :
+  wt_program P = true -> s1_stmts strict (p_stmts P) && forallb (s1_func strict) (p_funcs P) = true ->
+  forall fuel s0, start_ok strict P s0 -> ~ goes_wrong_s strict (fst (run_program fuel P s0)).
+Proof.
+  intros Hwt Hfr fuel s0 (g & Hg & Hs0).
+  destruct (wt_program_inv P Hwt) as (g' & Hg' & Hf). rewrite Hg in Hg'. inversion Hg'; subst g'.
+  apply andb_true_iff in Hfr as [Hfr1 Hfr2].
+  eapply (soundness_generic strict g (wt_top_extends P g Hg)); eauto.
+Qed.
+
 (* Stage 1 (strict fragment: `any` never inside a composite type): no run goes wrong *)
 Theorem soundness_stage1 P :
   wt_program P = true -> s1_program P = true ->
-  forall fuel s0, state_ok true s0 -> ~ goes_wrong (fst (run_program fuel P s0)).
+  forall fuel s0, start_ok true P s0 -> ~ goes_wrong (fst (run_program fuel P s0)).
 Proof.
-  intros Hwt Hs1 fuel s0 Hs0 Hbad. apply (soundness_generic true P Hwt Hs1 fuel s0 Hs0).
+  intros Hwt Hs1 fuel s0 Hs0 Hbad. apply (soundness_inst true P Hwt Hs1 fuel s0 Hs0).
   destruct (fst (run_program fuel P s0)) as [| |er]; simpl in *; auto.
   destruct er; simpl in *; auto. intros [H _]; discriminate.
 Qed.
@@ -2605,15 +3060,12 @@ Qed.
 (* Stage 2 (every value type): the only way to go wrong is the stack overflow on a cyclic value *)
 Theorem soundness_stage2 P :
   wt_program P = true -> s2_program P = true ->
-  forall fuel s0, state_ok false s0 -> ~ goes_wrong_badly (fst (run_program fuel P s0)).
+  forall fuel s0, start_ok false P s0 -> ~ goes_wrong_badly (fst (run_program fuel P s0)).
 Proof.
-  intros Hwt Hs1 fuel s0 Hs0 Hbad. apply (soundness_generic false P Hwt Hs1 fuel s0 Hs0).
+  intros Hwt Hs1 fuel s0 Hs0 Hbad. apply (soundness_inst false P Hwt Hs1 fuel s0 Hs0).
   destruct (fst (run_program fuel P s0)) as [| |er]; simpl in *; auto.
   destruct er; simpl in *; auto. intros [_ H]; auto.
 Qed.
-
-Definition preservation_stage1 := preservation_generic true.
-Definition preservation_stage2 := preservation_generic false.
 
 (* ---------- typeof ---------- *)
 (* the tag of the any cell built by an Any node is the node's annotation ... *)
